@@ -5,20 +5,26 @@ import ast
 
 from ..core import Ctx
 from ..cfg import call_may_raise
-from ..match import _atoms_with_polarity, arg, call_name, calls, fact_of, facts_at, local_defs, loop_facts, resolve, single_def, stores
-from ..model import AnalysisError, FuncInfo, ancestors, chain, const_value, enclosing_stmt, head, norm, parent, strip_cast, walk_no_nested
+from ..match import _atoms_with_polarity, arg, call_name, calls, expr_context_facts, fact_of, facts_at, local_defs, resolve, single_def, stores
+from ..model import AnalysisError, FuncInfo, ancestors, chain, clone, const_value, enclosing_stmt, head, norm, parent, strip_cast, walk_no_nested
 
 LEVEL = "other"
 EXPLANATION = (
-    "Store gate and authenticity as dominance facts: every add_value in on_store_request is dominated by a non-None "
+    "Store gate and authenticity as dominance facts: every add_value reached from on_store_request is dominated by a non-None "
     "requesting node built from the authenticated sender, the size and count limits, and a truthy check_token for that "
-    "same node; generate_token and check_token hash the same pre-image, secrets live in a deque(maxlen=2) appended only "
-    "by token_maintenance at a 300 s interval (validity <= TOKEN_EXPIRATION_TIME); unserialize_value reports a signer "
-    "only under a valid signature over value[:-L] with the carried key; lookups report max(version) per signer; "
-    "Storage.put changes the key's list only on paths where the id was not found or version >= old was established "
-    "(path query on the CFG, independent of the try/if shape); Storage.clean examines every value (no early exit); "
-    "store-peer requires the token and target == peer.mid. Locals are followed through their definitions, guards are "
-    "taken from dominating facts. Interleavings with clock advances are not explored."
+    "same node, and add_value has no other callers than that gated path and store_on_nodes; generate_token and check_token "
+    "hash the same pre-image, secrets live in a deque(maxlen=2) appended only by token_maintenance at a 300 s interval "
+    "(validity <= TOKEN_EXPIRATION_TIME); Bucket.add refreshes the address of a known routing entry on every path, so the "
+    "node whose str() is hashed carries the requester's current address; unserialize_value reports a signer only under a "
+    "valid signature over value[:-L] with the carried key; lookups hand every received value to post_process_values, which "
+    "reports max(version) per signer (collect + max, or a running maximum decided as a path query); Storage.put changes "
+    "the key's list only on paths where the id was not found or version >= old was established (path query on the CFG, "
+    "independent of the try/if shape); Storage.clean examines every value (no early exit); store-peer requires the token "
+    "and target == peer.mid. Locals are followed through their definitions, guards are taken from dominating facts; a "
+    "guard, lookup or result that lives in a helper (decision helper answering bool / reason / tag / tuple, validator that "
+    "raises, dispatch table, generator, acting helper) is followed into the helper with its parameters bound to the "
+    "arguments, and tests of flag locals are correlated with the values the flag was last given. Interleavings with clock "
+    "advances are not explored."
 )
 
 DC = "ipv8/dht/community.py"
@@ -120,13 +126,532 @@ def _cond_edge_fact(u, lab):
     return fact_of(u.ast, lab)
 
 
+# ------------------------------------------------------------------------------------------------ frames
+# A guard may live in the handler itself, in a decision helper whose answer the handler acts on (`if self._ok(..)`,
+# `reason = self._rejection(..)` / `if reason is None`, `ok, why = self._decide(..)`), in a validating helper that raises,
+# or - when the guarded action moved into a helper - at the helper's call site.  A frame is one (function, site) pair
+# together with the binding of the function's parameters to expressions of the anchor function, so that a rule states its
+# condition once ("a truthy check_token(<requesting node>, <payload>.token) dominates this site") and _holds() looks for
+# it in every place where it implies the condition at the original site.
+_MAX_DEPTH = 3
+
+
+def _subst(e: ast.AST, mapping: dict, rename: dict) -> ast.AST:
+    """structural copy of e with names replaced: mapping name -> expression (copied in), rename name -> new spelling"""
+    def rep(n):
+        if isinstance(n, ast.Name):
+            if n.id in mapping:
+                return clone(mapping[n.id])
+            if n.id in rename:
+                n.id = rename[n.id]
+            return n
+        for f, v in ast.iter_fields(n):
+            if isinstance(v, ast.AST):
+                setattr(n, f, rep(v))
+            elif isinstance(v, list):
+                setattr(n, f, [rep(x) if isinstance(x, ast.AST) else x for x in v])
+        return n
+    return rep(clone(e))
+
+
+def _bound_names(fn) -> set[str]:
+    """every name bound anywhere inside fn: parameters, assignment / loop / comprehension / with / except / walrus targets"""
+    out = set()
+    for n in ast.walk(fn):
+        if isinstance(n, ast.Name) and isinstance(n.ctx, (ast.Store, ast.Del)):
+            out.add(n.id)
+        elif isinstance(n, ast.ExceptHandler) and n.name:
+            out.add(n.name)
+        elif isinstance(n, ast.arg):
+            out.add(n.arg)
+    return out
+
+
+def _followable(h: FuncInfo) -> bool:
+    """a plain synchronous function whose returns are its results (no generator, no coroutine)"""
+    if h.is_async or h.node.args.vararg or h.node.args.kwarg:
+        return False
+    return not any(isinstance(x, (ast.Yield, ast.YieldFrom)) for x in walk_no_nested(h.node))
+
+
+def _is_static(h: FuncInfo) -> bool:
+    return "staticmethod" in h.decorator_names()
+
+
+def _table_values(repo, fi: FuncInfo, t: ast.AST, depth: int):
+    """the callables held by a dispatch table: dict / tuple / list literal (through a local, a module constant or a
+    class attribute); a table denotes the set of its values"""
+    if depth > 4:
+        return None
+    t = resolve(fi, t)
+    if isinstance(t, ast.Name) and not local_defs(fi, t.id) and t.id not in fi.params() and t.id in fi.module.constants:
+        t = strip_cast(fi.module.constants[t.id])
+    elif isinstance(t, ast.Attribute) and isinstance(t.value, ast.Name) and fi.cls is not None \
+            and (t.value.id in ("self", "cls") or t.value.id in [c.name for c in fi.cls.mro()]):
+        a = fi.cls.lookup_attr(t.attr)
+        if a is None:
+            return None
+        t = strip_cast(a)
+    if isinstance(t, ast.Call) and chain(t.func) in ("dict", "MappingProxyType", "types.MappingProxyType") and len(t.args) == 1:
+        t = strip_cast(t.args[0])
+    if isinstance(t, ast.Dict):
+        vals = t.values
+        if any(k is None for k in t.keys):
+            return None
+    elif isinstance(t, (ast.Tuple, ast.List)):
+        vals = t.elts
+    else:
+        return None
+    out = []
+    for v in vals:
+        v = strip_cast(v)
+        r = None
+        if isinstance(v, ast.Constant) and isinstance(v.value, str) and fi.cls is not None:
+            r = [(m, not _is_static(m)) for m in repo.dispatch(fi.cls, v.value)] or None      # names for getattr(self, name)
+        elif isinstance(v, ast.Name) and fi.cls is not None and v.id in fi.cls.methods and not local_defs(fi, v.id):
+            r = [(fi.cls.methods[v.id], False)]                # plain functions of the class body, called as f(self, ..)
+        else:
+            r = _callee_targets(repo, fi, v, depth + 1)
+        if not r:
+            return None
+        out += r
+    return out
+
+
+def _callee_targets(repo, fi: FuncInfo, f: ast.AST, depth: int = 0):
+    """[(function, bound?)] a callee expression may denote: self.method, module function, a callable picked from a
+    dispatch table (subscript / .get / getattr over the table's names), either arm of a conditional; None = unknown"""
+    if depth > 4:
+        return None
+    f = strip_cast(f)
+    if isinstance(f, ast.Name):
+        d = single_def(fi, f.id)
+        if d is not None:
+            return None if d[1] is not None else _callee_targets(repo, fi, d[0], depth + 1)
+        if f.id in fi.params() or local_defs(fi, f.id):
+            return None
+        r = repo.resolve_name(fi.module, f.id)
+        return [(r, False)] if isinstance(r, FuncInfo) else None
+    if isinstance(f, ast.Attribute) and isinstance(f.value, ast.Name) and f.value.id in ("self", "cls") and fi.cls is not None:
+        if fi.cls.lookup(f.attr) is not None:
+            return [(t, not _is_static(t)) for t in repo.dispatch(fi.cls, f.attr)]
+        return None
+    if isinstance(f, ast.IfExp):
+        a, b = _callee_targets(repo, fi, f.body, depth + 1), _callee_targets(repo, fi, f.orelse, depth + 1)
+        return None if a is None or b is None else a + b
+    if isinstance(f, ast.Subscript):
+        return _table_values(repo, fi, f.value, depth + 1)
+    if isinstance(f, ast.Call):
+        if isinstance(f.func, ast.Attribute) and f.func.attr == "get" and 1 <= len(f.args) <= 2 and not f.keywords:
+            vals = _table_values(repo, fi, f.func.value, depth + 1)
+            if vals is not None and len(f.args) == 2 and not _is_none(strip_cast(f.args[1])):
+                dflt = _callee_targets(repo, fi, f.args[1], depth + 1)
+                vals = None if dflt is None else vals + dflt
+            return vals
+        if chain(f.func) == "getattr" and len(f.args) in (2, 3) and chain(f.args[0]) == "self" and fi.cls is not None:
+            nm = resolve(fi, f.args[1])
+            if isinstance(nm, ast.Constant) and isinstance(nm.value, str):
+                ts = repo.dispatch(fi.cls, nm.value)
+                return [(t, not _is_static(t)) for t in ts] or None
+            if isinstance(nm, ast.Subscript):
+                return _table_values(repo, fi, nm.value, depth + 1)
+            if isinstance(nm, ast.Call) and isinstance(nm.func, ast.Attribute) and nm.func.attr == "get" and nm.args:
+                return _table_values(repo, fi, nm.func.value, depth + 1)
+    return None
+
+
+def _call_targets(ctx: Ctx, fi: FuncInfo, call: ast.Call):
+    """followable targets of a call inside fi (None when the callee is unknown or not a plain function of this code)"""
+    ts = _callee_targets(ctx.repo, fi, call.func)
+    if not ts or len(ts) > 6 or any(not _followable(t) or t.node is fi.node for t, _ in ts):
+        return None
+    if any(isinstance(a, ast.Starred) for a in call.args) or any(k.arg is None for k in call.keywords):
+        return None
+    return ts
+
+
+class _FlagReach:
+    """
+    Reachability that knows about flag locals.  A test of a plain local (`if reason is None`, `if not ok`, `if verdict == OK`)
+    cannot go the way that contradicts the value the local was last given (`reason = "too long"`, `ok = False`), so paths
+    that take such an edge are not feasible.  The search runs over (node, last definition of every tested local); a
+    definition takes effect when its statement completes normally.  Everything else is the plain CFG reachability, so
+    without flag locals the answer is the one of CFG.reach.
+    """
+
+    def __init__(self, fi: FuncInfo, cfg) -> None:
+        self.fi, self.cfg = fi, cfg
+        self.defs_at: dict = {}          # cfg node -> [(local, definition index)]
+        self.bad: dict = {}              # (cond node, label) -> (local, {definition indexes that contradict this outcome})
+        if any(isinstance(x, (ast.Nonlocal, ast.Global)) for x in ast.walk(fi.node)):
+            return
+        tested: dict[str, list] = {}
+        for c in cfg.nodes:
+            if c.kind != "cond" or c.ast is None:
+                continue
+            for pol in (True, False):
+                f = fact_of(c.ast, pol)
+                want, subj = None, None
+                if f.op == "truthy":
+                    want, subj = ("truthy", f.pos, None), f.left
+                elif f.op == "is" and _is_none(f.right):
+                    want, subj = ("none", f.pos, None), f.left
+                elif f.op in ("eq", "is") and f.right is not None:
+                    for x, y in ((f.left, f.right), (f.right, f.left)):
+                        y = strip_cast(y)
+                        if isinstance(strip_cast(x), ast.Name) and (isinstance(y, ast.Constant) or isinstance(y, (ast.Name, ast.Attribute))
+                                                                   and (chain(y) or "").split(".")[-1].isupper()):
+                            want, subj = ("eq", f.pos, y), x
+                            break
+                subj = strip_cast(subj) if subj is not None else None
+                if want is not None and isinstance(subj, ast.Name) and subj.id not in fi.params():
+                    tested.setdefault(subj.id, []).append((c, pol, want))
+        for name, tests in tested.items():
+            defs = local_defs(fi, name)
+            if len(defs) < 2 or len(defs) > 8:
+                continue
+            placed = [[n for n in cfg.nodes_for(st) if n.ast is st] for st, _, _ in defs]
+            if not all(placed):
+                continue                           # a definition that is not a statement of its own (walrus, ...): the local is not tracked
+            for i, ns in enumerate(placed):
+                for n in ns:
+                    self.defs_at.setdefault(n, []).append((name, i))
+            for c, pol, want in tests:
+                wrong = set()
+                for i, (st, val, idx) in enumerate(defs):
+                    if val is None or idx is not None or not isinstance(st, (ast.Assign, ast.AnnAssign)):
+                        continue
+                    v = strip_cast(val)
+                    if not isinstance(v, ast.Name) and not _consistent(fi, v, want)[0]:
+                        wrong.add(i)
+                if wrong:
+                    self.bad[(c, pol)] = (name, wrong)
+        self.names = sorted({nm for nm, _ in self.bad.values()})
+        self.defs_at = {n: [(nm, i) for nm, i in v if nm in self.names] for n, v in self.defs_at.items()}
+
+    def reach(self, starts=None, *, cut_nodes=(), cut_edge=None):
+        cfg = self.cfg
+        if not self.bad:
+            return cfg.reach(starts, cut_nodes=cut_nodes, cut_edge=cut_edge)
+        cut_nodes = set(cut_nodes)
+        starts = [cfg.entry] if starts is None else list(starts)
+        init = tuple(-1 for _ in self.names)              # -1: not defined yet / unknown
+        seen, todo = set(), [(s, init) for s in starts if s not in cut_nodes]
+        while todo:
+            u, st = todo.pop()
+            if (u, st) in seen:
+                continue
+            seen.add((u, st))
+            for v, lab in u.succ:
+                if v in cut_nodes or cut_edge is not None and cut_edge(u, v, lab):
+                    continue
+                b = self.bad.get((u, lab)) if lab in (True, False) else None
+                if b is not None and st[self.names.index(b[0])] in b[1]:
+                    continue                               # the local was last given a value that makes the test go the other way
+                st2 = st
+                if lab != "exc" and u in self.defs_at and self.defs_at[u]:
+                    l = list(st)
+                    for nm, i in self.defs_at[u]:
+                        l[self.names.index(nm)] = i
+                    st2 = tuple(l)
+                if (v, st2) not in seen:
+                    todo.append((v, st2))
+        return {n for n, _ in seen}
+
+
+def _flag_reach(ctx: Ctx, fi: FuncInfo) -> _FlagReach:
+    cache = getattr(ctx, "_c15_flag_reach", None)
+    if cache is None:
+        cache = {}
+        setattr(ctx, "_c15_flag_reach", cache)
+    k = id(fi.node)
+    if k not in cache:
+        cache[k] = _FlagReach(fi, ctx.cfg(fi))
+    return cache[k]
+
+
+class _Frame:
+    def __init__(self, ctx: Ctx, fi: FuncInfo, site, *, up: "_Frame | None" = None, call: ast.Call | None = None, bound: bool = True,
+                 blocked=(), extra=(), ctx_up: bool = False) -> None:
+        self.ctx, self.fi, self.site, self.up, self.call, self.bound = ctx, fi, site, up, call, bound
+        self.blocked, self.extra, self.ctx_up = list(blocked), list(extra), ctx_up
+        self.depth = 0 if up is None else up.depth + 1
+        self.mapping: dict[str, ast.AST] = {}
+        self.rename: dict[str, str] = {}
+        self._facts = None
+        if up is not None and call is not None:
+            ps = fi.params()
+            pos = ps[1:] if bound and ps else ps
+            rebound = {p for p in ps if local_defs(fi, p)}
+            for p, a in zip(pos, call.args):
+                if p not in rebound:
+                    self.mapping[p] = up.top(a, follow=False)
+            for k in call.keywords:
+                if k.arg in ps and k.arg not in rebound:
+                    self.mapping[k.arg] = up.top(k.value, follow=False)
+            if bound and ps:
+                self.mapping.setdefault(ps[0], ast.Name(id="self", ctx=ast.Load()))
+            self.rename = {n: f"{n}#{self.depth}" for n in _bound_names(fi.node) if n not in self.mapping}
+
+    @property
+    def cfg(self):
+        return self.ctx.cfg(self.fi)
+
+    def at(self, site, extra=()) -> "_Frame":
+        """the same function and binding, another site"""
+        f = _Frame(self.ctx, self.fi, site, blocked=self.blocked if site is self.site else (), extra=extra, ctx_up=self.ctx_up)
+        f.up, f.call, f.bound, f.depth, f.mapping, f.rename = self.up, self.call, self.bound, self.depth, self.mapping, self.rename
+        return f
+
+    def root(self) -> "_Frame":
+        f = self
+        while f.up is not None:
+            f = f.up
+        return f
+
+    def top(self, e: ast.AST, follow: bool = True) -> ast.AST:
+        """e in the anchor function's terms: own single-assignment locals followed, parameters replaced by the caller's
+        arguments, remaining own locals marked so that they can never be mistaken for a name of the anchor function"""
+        e = strip_cast(e)
+        if self.up is None:
+            return resolve(self.fi, e) if follow else e
+        return _subst(resolve(self.fi, e), self.mapping, self.rename)
+
+    def text(self, e: ast.AST | None, follow: bool = True) -> str:
+        if e is None:
+            return "<none>"
+        t = self.top(e, follow)
+        if follow and self.up is not None:
+            t = resolve(self.root().fi, t)
+        return norm(t)
+
+    def reach(self, starts=None, *, cut_edge=None, cut_nodes=()):
+        """nodes on feasible paths that avoid the frame's blocked nodes (see _FlagReach)"""
+        return _flag_reach(self.ctx, self.fi).reach(starts, cut_nodes=[*self.blocked, *cut_nodes], cut_edge=cut_edge)
+
+    def nodes(self):
+        ns = [self.site] if not isinstance(self.site, ast.AST) else self.cfg.nodes_for(self.site)
+        live = self.reach()
+        return [n for n in ns if n in live]
+
+    def _edge_facts(self):
+        """(atom / loop, polarity) pairs that hold on every path from the entry to the site that avoids the blocked nodes"""
+        ns = self.nodes()
+        out = []
+        if not ns:
+            return out
+        for c in self.cfg.nodes:
+            if c.kind not in ("cond", "loop") or c in ns:
+                continue
+            for pol in (True, False):
+                if not any(lab is pol for _, lab in c.succ):
+                    continue
+                r = self.reach(cut_edge=lambda u, v, lab, c=c, pol=pol: u is c and lab is pol)
+                if not any(n in r for n in ns):
+                    out.append((c.ast, pol))
+        return out
+
+    def facts(self):
+        if self._facts is None:
+            ef = self._edge_facts()
+            fs = list(self.extra) + (expr_context_facts(self.site) if isinstance(self.site, ast.AST) else [])
+            fs += [fact_of(a, p) for a, p in ef if not isinstance(a, (ast.For, ast.AsyncFor, ast.While))]
+            self._facts = (fs, [(a, p) for a, p in ef if isinstance(a, (ast.For, ast.AsyncFor, ast.While))])
+        return self._facts[0]
+
+    def loop_facts(self):
+        self.facts()
+        return self._facts[1]
+
+    def root_site(self) -> ast.AST | None:
+        """the place in the anchor function where this frame's function runs (None for the anchor function itself)"""
+        f, site = self, None
+        while f.up is not None:
+            site, f = f.call, f.up
+        return site
+
+    # ---- where else the condition may be established
+    def expansions(self):
+        """groups of frames: a condition that holds in every frame of one group holds at this frame's site"""
+        if self.depth >= _MAX_DEPTH:
+            return
+        for f in self.facts():
+            g = _decision_frames(self, f)
+            if g:
+                yield g
+        # validating helpers: `self._validate(..)` completed normally on every path to the site
+        ns = self.nodes()
+        for st in walk_no_nested(self.fi.node):
+            c = st.value if isinstance(st, ast.Expr) else None
+            if not isinstance(c, ast.Call) or not ns:
+                continue
+            if not (isinstance(c.func, ast.Attribute) and c.func.attr.startswith("_") or isinstance(c.func, ast.Name) and c.func.id.startswith("_")):
+                continue
+            through = [n for n in self.cfg.nodes_for(c) if n not in ns]
+            if not through or any(n in self.cfg.reach(cut_nodes=self.blocked, cut_out_normal=through) for n in ns):
+                continue
+            ts = _call_targets(self.ctx, self.fi, c)
+            if ts:
+                up = self.at(c)
+                yield [_Frame(self.ctx, t, self.ctx.cfg(t).exit, up=up, call=c, bound=b) for t, b in ts]
+        if self.ctx_up and self.up is not None:
+            yield [self.up]
+
+
+def _holds(fr: _Frame, pred) -> bool:
+    """pred(frame) is established at the frame's site: by the facts that dominate it, or in every frame of one expansion"""
+    if pred(fr):
+        return True
+    for group in fr.expansions():
+        if group and all(_holds(g, pred) for g in group):
+            return True
+    return False
+
+
+def _distinct_values(fi: FuncInfo, a: ast.AST, b: ast.AST):
+    """True / False when two constant-like expressions are known to be different / the same value, None when unknown"""
+    ca, cb = const_value(a), const_value(b)
+    if isinstance(a, ast.Constant) and isinstance(b, ast.Constant):
+        return ca != cb
+    if norm(a) == norm(b) and chain(a) is not None and "(" not in (chain(a) or "("):
+        return False
+    if isinstance(a, ast.Attribute) and isinstance(b, ast.Attribute) and norm(a.value) == norm(b.value) and a.attr != b.attr \
+            and a.attr.isupper() and b.attr.isupper():
+        return True                                            # two members of one enumeration / constant namespace
+    if isinstance(a, ast.Name) and isinstance(b, ast.Name) and a.id in fi.module.constants and b.id in fi.module.constants:
+        va, vb = const_value(strip_cast(fi.module.constants[a.id])), const_value(strip_cast(fi.module.constants[b.id]))
+        if isinstance(strip_cast(fi.module.constants[a.id]), ast.Constant) and isinstance(strip_cast(fi.module.constants[b.id]), ast.Constant):
+            return va != vb
+    return None
+
+
+def _never_none(v: ast.AST) -> bool:
+    return isinstance(v, (ast.Tuple, ast.List, ast.Dict, ast.Set, ast.JoinedStr, ast.BinOp, ast.Compare, ast.ListComp, ast.DictComp,
+                          ast.SetComp, ast.GeneratorExp, ast.Lambda)) or isinstance(v, ast.Constant) and v.value is not None
+
+
+def _known_truth(v: ast.AST):
+    """truth value of an expression when its spelling fixes it (constants, non-empty displays, text with a constant part)"""
+    if isinstance(v, ast.Constant):
+        return bool(v.value)
+    if isinstance(v, (ast.Tuple, ast.List, ast.Dict, ast.Set)):
+        n = len(v.keys) if isinstance(v, ast.Dict) else len(v.elts)
+        if n == 0 or not any(isinstance(x, ast.Starred) for x in (v.elts if not isinstance(v, ast.Dict) else [])) and (not isinstance(v, ast.Dict) or all(k is not None for k in v.keys)):
+            return n > 0
+        return None
+    if isinstance(v, ast.JoinedStr):
+        return True if any(isinstance(x, ast.Constant) and x.value for x in v.values) else None
+    if isinstance(v, ast.BinOp) and isinstance(v.op, ast.Add):
+        if any(isinstance(x, ast.Constant) and isinstance(x.value, (str, bytes)) and x.value for x in (v.left, v.right)):
+            return True
+        if True in (_known_truth(v.left), _known_truth(v.right)) and all(isinstance(x, (ast.JoinedStr, ast.Constant, ast.BinOp)) for x in (v.left, v.right)):
+            return True
+    return None
+
+
+def _consistent(h: FuncInfo, v: ast.AST | None, want) -> tuple[bool, list]:
+    """can a function result written `v` satisfy the caller's fact `want`?  -> (possible, facts that then hold).
+    Unknown is answered `possible` (the frame is then examined: more frames can only make a condition harder to establish)."""
+    kind, pos, other = want
+    if v is None:
+        return True, []
+    if isinstance(v, ast.IfExp):
+        (a, fa), (b, fb) = _consistent(h, resolve(h, v.body), want), _consistent(h, resolve(h, v.orelse), want)
+        if a and b:
+            return True, []
+        return a or b, (_atoms_with_polarity(v.test, True) + fa if a else _atoms_with_polarity(v.test, False) + fb if b else [])
+    if kind == "truthy":
+        t = _known_truth(v)
+        if t is not None:
+            return t == pos, []
+        return True, _atoms_with_polarity(v, pos)
+    if kind == "none":
+        if isinstance(v, ast.Constant):
+            return (v.value is None) == pos, []
+        if _never_none(v):
+            return not pos, []
+        return True, [fact_of(ast.Compare(left=v, ops=[ast.Is() if pos else ast.IsNot()], comparators=[ast.Constant(value=None)]), True)]
+    if kind == "eq":
+        d = _distinct_values(h, v, other)
+        if d is None:
+            return True, []
+        return (not d) == pos, []
+    return True, []
+
+
+def _decision_frames(fr: _Frame, f):
+    """fact f talks about the answer of a helper: the frames of the helper's returns that can give this answer"""
+    want, subj = None, None
+    if f.op == "truthy":
+        want, subj = ("truthy", f.pos, None), f.left
+    elif f.op == "is" and _is_none(f.right):
+        want, subj = ("none", f.pos, None), f.left
+    elif f.op in ("eq", "is") and f.right is not None:
+        for a, b in ((f.left, f.right), (f.right, f.left)):
+            b = strip_cast(b)
+            if isinstance(b, ast.Constant) or isinstance(b, (ast.Name, ast.Attribute)) and (chain(b) or "").split(".")[-1].isupper():
+                want, subj = ("eq", f.pos, b), a
+                break
+    if want is None:
+        return None
+    subj, idx = strip_cast(subj), None
+    if isinstance(subj, ast.Subscript) and type(const_value(subj.slice)) is int and const_value(subj.slice) >= 0:
+        subj, idx = strip_cast(subj.value), const_value(subj.slice)
+    if isinstance(subj, ast.Name):
+        # the one definition that reaches the test (the local may be rebound later, e.g. by a loop further down)
+        d = _reaching_def(fr.fi, subj.id, fr.cfg, f.atom) or single_def(fr.fi, subj.id)
+        if d is None or (d[1] is not None and idx is not None):
+            return None
+        subj, idx = strip_cast(d[0]), d[1] if d[1] is not None else idx
+    if not isinstance(subj, ast.Call):
+        return None
+    ts = _call_targets(fr.ctx, fr.fi, subj)
+    if not ts:
+        return None
+    up = fr.at(subj)
+    out = []
+    for h, bound in ts:
+        cfg = fr.ctx.cfg(h)
+        rets = _returns(h)
+        for r in rets:
+            v = resolve(h, r.value) if r.value is not None else ast.Constant(value=None)
+            if idx is not None:
+                v = resolve(h, v.elts[idx]) if isinstance(v, ast.Tuple) and idx < len(v.elts) and not any(isinstance(x, ast.Starred) for x in v.elts) \
+                    else None
+            ok, extra = _consistent(h, v, want)
+            if ok:
+                out.append(_Frame(fr.ctx, h, r, up=up, call=subj, bound=bound, extra=extra))
+        rn = [n for r in rets for n in cfg.nodes_for(r)]
+        if cfg.exit in cfg.reach(cut_nodes=rn, follow_exc=True) and any(lab != "exc" and not isinstance(u.ast, ast.Return) for u, lab in cfg.exit.pred):
+            # falling off the end answers None
+            if _consistent(h, ast.Constant(value=None) if idx is None else None, want)[0]:
+                out.append(_Frame(fr.ctx, h, cfg.exit, up=up, call=subj, bound=bound, blocked=rn))
+    return out
+
+
+def _sites_via_helpers(ctx: Ctx, root: _Frame, finder, depth: int = 0):
+    """frames of the sites finder(function) reports in the anchor function and in the helpers it hands work to (the facts
+    of the call site then hold in the helper)"""
+    out = [root.at(s) for s in finder(root.fi)]
+    if depth >= 2:
+        return out
+    for c in calls(root.fi):
+        ts = _call_targets(ctx, root.fi, c)
+        if not ts or len(ts) != 1 or not (isinstance(c.func, ast.Attribute) and chain(c.func.value) in ("self", "cls") or isinstance(c.func, ast.Name)):
+            continue
+        h, bound = ts[0]
+        sub = _Frame(ctx, h, h.node, up=root.at(c), call=c, bound=bound, ctx_up=True)
+        out += _sites_via_helpers(ctx, sub, finder, depth + 1)
+    return out
+
+
 # ------------------------------------------------------------------------------------------------ store gate
-def _len_of(fi: FuncInfo, e: ast.AST, what) -> bool:
-    e = resolve(fi, e)
+def _len_of(fr: _Frame, e: ast.AST, what) -> bool:
+    e = resolve(fr.fi, e)
     return isinstance(e, ast.Call) and chain(e.func) == "len" and len(e.args) == 1 and what(e.args[0])
 
 
-def _too_long(fi: FuncInfo, atom: ast.AST, pol: bool, var: str) -> bool | None:
+def _too_long(fr: _Frame, atom: ast.AST, pol: bool, var: str) -> bool | None:
     """atom (with polarity pol) says: len(var) > MAX_ENTRY_SIZE -> True;  len(var) <= MAX_ENTRY_SIZE (or <) -> False; else None"""
     fs = _atoms_with_polarity(atom, pol)
     if len(fs) != 1:
@@ -135,16 +660,17 @@ def _too_long(fi: FuncInfo, atom: ast.AST, pol: bool, var: str) -> bool | None:
     is_var = lambda x: isinstance(x, ast.Name) and x.id == var  # noqa: E731
     if f.op != "lt":
         return None
-    if chain(f.left) == "MAX_ENTRY_SIZE" and _len_of(fi, f.right, is_var):
+    if chain(f.left) == "MAX_ENTRY_SIZE" and _len_of(fr, f.right, is_var):
         return f.pos                       # MAX < len  /  not MAX < len
-    if chain(f.right) == "MAX_ENTRY_SIZE" and _len_of(fi, f.left, is_var) and f.pos:
+    if chain(f.right) == "MAX_ENTRY_SIZE" and _len_of(fr, f.left, is_var) and f.pos:
         return False                       # len < MAX (stricter than required)
     return None
 
 
-def _size_gate(fi: FuncInfo, cfg, add: ast.Call, fs, is_values) -> bool:
-    """every value of the request is known to be <= MAX_ENTRY_SIZE when `add` runs"""
-    for f in fs:
+def _size_gate(fr: _Frame, is_values) -> bool:
+    """every value of the request is known to be <= MAX_ENTRY_SIZE when the frame's site is reached"""
+    fi, cfg = fr.fi, fr.cfg
+    for f in fr.facts():
         if f.op != "truthy" or not isinstance(f.left, ast.Call) or chain(f.left.func) not in ("any", "all") or len(f.left.args) != 1:
             continue
         gen = f.left.args[0]
@@ -153,12 +679,34 @@ def _size_gate(fi: FuncInfo, cfg, add: ast.Call, fs, is_values) -> bool:
         g = gen.generators[0]
         if g.ifs or g.is_async or not isinstance(g.target, ast.Name) or not is_values(_unwrap_iter(g.iter)):
             continue
-        if chain(f.left.func) == "any" and not f.pos and _too_long(fi, gen.elt, True, g.target.id) is True:
+        if chain(f.left.func) == "any" and not f.pos and _too_long(fr, gen.elt, True, g.target.id) is True:
             return True                    # not any(len(v) > MAX for v in values)
-        if chain(f.left.func) == "all" and f.pos and _too_long(fi, gen.elt, True, g.target.id) is False:
+        if chain(f.left.func) == "all" and f.pos and _too_long(fr, gen.elt, True, g.target.id) is False:
             return True                    # all(len(v) <= MAX for v in values)
-    # explicit loop: `for v in values: if len(v) > MAX: return` completed before the add
-    exhausted = [l for l, pol in loop_facts(cfg, add) if pol is False and isinstance(l, ast.For)]
+        # (handled above: any / all over the values)
+    for f in fr.facts():
+        # not [v for v in values if len(v) > MAX]   (the list of offending values is empty)
+        r = resolve(fi, f.left) if f.op == "truthy" and not f.pos else None
+        if isinstance(r, (ast.ListComp, ast.SetComp)) and len(r.generators) == 1:
+            g = r.generators[0]
+            if len(g.ifs) == 1 and not g.is_async and isinstance(g.target, ast.Name) and is_values(_unwrap_iter(g.iter)) \
+                    and _too_long(fr, g.ifs[0], True, g.target.id) is True:
+                return True
+        # max(len(v) for v in values) <= MAX   (also with default=..)
+        if f.op == "lt":
+            for big, small, pos in ((f.right, f.left, False), (f.left, f.right, True)):
+                m = resolve(fi, big)
+                if f.pos is pos and chain(small) == "MAX_ENTRY_SIZE" and isinstance(m, ast.Call) and chain(m.func) == "max" and len(m.args) == 1:
+                    gen = m.args[0]
+                    if isinstance(gen, (ast.GeneratorExp, ast.ListComp)) and len(gen.generators) == 1 and not gen.generators[0].ifs \
+                            and isinstance(gen.generators[0].target, ast.Name) and is_values(_unwrap_iter(gen.generators[0].iter)) \
+                            and _len_of(fr, gen.elt, lambda x, g=gen: isinstance(x, ast.Name) and x.id == g.generators[0].target.id):
+                        return True
+                    if isinstance(gen, ast.Call) and chain(gen.func) == "map" and len(gen.args) == 2 and chain(gen.args[0]) == "len" and is_values(_unwrap_iter(gen.args[1])):
+                        return True
+    # explicit loop: `for v in values: if len(v) > MAX: return` completed before the site
+    sites = fr.nodes()
+    exhausted = [l for l, pol in fr.loop_facts() if pol is False and isinstance(l, ast.For)]
     for l in exhausted:
         if not isinstance(l.target, ast.Name) or not is_values(_unwrap_iter(l.iter)) or len(local_defs(fi, l.target.id)) != 1:
             continue
@@ -166,17 +714,58 @@ def _size_gate(fi: FuncInfo, cfg, add: ast.Call, fs, is_values) -> bool:
         for c in cfg.nodes:
             if c.kind != "cond" or l not in list(ancestors(c.ast)):
                 continue
-            if _too_long(fi, c.ast, True, l.target.id) is not True:
+            if _too_long(fr, c.ast, True, l.target.id) is not True:
                 continue
             # an iteration gets back to the loop head (and so to the code after the loop) only over `not too long`
             ok = True
             for h in heads:
                 body = [v for v, lab in h.succ if lab is True]
-                r = cfg.reach(body, cut_edge=lambda u, v, lab, c=c: u is c and lab is False)
-                if h in r or any(n in r for n in cfg.nodes_for(add)):
+                r = cfg.reach(body, cut_nodes=fr.blocked, cut_edge=lambda u, v, lab, c=c: u is c and lab is False)
+                if h in r or any(n in r for n in sites):
                     ok = False
             if ok and heads:
                 return True
+    return False
+
+
+def _used_only_by(repo, fi: FuncInfo | None, roots: set[str], depth: int = 0) -> bool:
+    """fi is one of the root functions, a closure of one, or a private helper every use of which (call or reference, e.g. in a
+    dispatch table) lives inside such a function; class / module level references are neutral"""
+    if fi is None:
+        return False
+    if fi.qualname in roots or any(fi.qualname.startswith(r + ".") for r in roots):
+        return True
+    if depth > 3 or not fi.name.startswith("_") or fi.name.startswith("__"):
+        return False
+    users = []
+    for m in repo.modules.values():
+        if fi.name not in m.src:
+            continue
+        for n in ast.walk(m.tree):
+            if isinstance(n, ast.Attribute) and n.attr == fi.name or isinstance(n, ast.Name) and n.id == fi.name and isinstance(n.ctx, ast.Load) \
+                    or isinstance(n, ast.Constant) and n.value == fi.name:
+                g = repo.function_of(n)
+                if g is not None and g.node is not fi.node:
+                    users.append(g)
+    return bool(users) and all(_used_only_by(repo, g, roots, depth + 1) for g in users)
+
+
+def _element_of_values(fi: FuncInfo, site: ast.AST, val: ast.AST | None, is_values) -> bool:
+    """val, used at site, is an element of the request's values: the variable of an enclosing loop / comprehension over them
+    (also through enumerate / reversed / list), or a subscript of them"""
+    if isinstance(val, ast.Subscript):
+        return is_values(_unwrap_iter(val.value)) and not isinstance(val.slice, ast.Slice)
+    if not isinstance(val, ast.Name):
+        return False
+    for l in ancestors(site):
+        gens = [l] if isinstance(l, (ast.For, ast.AsyncFor)) else l.generators if isinstance(l, (ast.ListComp, ast.GeneratorExp, ast.SetComp)) else []
+        for g in gens:
+            it, enum = _strip_enumerate(g.iter)
+            t = g.target
+            if enum:
+                t = t.elts[1] if isinstance(t, ast.Tuple) and len(t.elts) == 2 else None
+            if isinstance(t, ast.Name) and t.id == val.id and is_values(it):
+                return len(local_defs(fi, val.id)) <= 1
     return False
 
 
@@ -186,47 +775,96 @@ def rule_store_gate(ctx: Ctx) -> None:
     from .c01 import classify_handler
     ctx.check(classify_handler(ctx, fi) == "authenticated", "store-gate", fi, fi.node, "on_store_request is an authenticated handler", "store requests are not authenticated")
     cfg = ctx.cfg(fi)
+    root = _Frame(ctx, fi, fi.node)
     peer, payload = fi.params()[1], fi.params()[2]
-    adds = ctx.anchor(calls(fi, "self.add_value"), "add_value in on_store_request")
+    adds = ctx.anchor(_sites_via_helpers(ctx, root, lambda f: calls(f, "self.add_value")), "add_value in on_store_request")
     # the requesting node: the local bound to get_requesting_node(<authenticated peer>)
+    def requester_expr(fr: _Frame, e) -> bool:
+        """e is (a local bound once to) self.get_requesting_node(<authenticated peer>)"""
+        r = resolve(fr.fi, e) if e is not None else None
+        return isinstance(r, ast.Call) and chain(r.func) == "self.get_requesting_node" and fr.text(arg(r, 0)) == peer
+
     req = []
     for st, targets, value in _assignments(fi):
         v = strip_cast(value)
-        if isinstance(v, ast.Call) and chain(v.func) == "self.get_requesting_node" and _rnorm(fi, arg(v, 0)) == peer:
+        if not isinstance(v, ast.Call):
+            continue
+        if chain(v.func) == "self.get_requesting_node":
+            ok = _rnorm(fi, arg(v, 0)) == peer
+        else:
+            # a helper that hands the requesting node back (or None): `node = self._authorised_requester(peer, payload)`
+            leaves = [(g, x) for g, x in _result_leaves(ctx, root.at(st), v, 0, requester_expr) if not _is_none(x)] if _call_targets(ctx, fi, v) else []
+            ok = bool(leaves) and all(g.up is not None and requester_expr(g, x) for g, x in leaves)
+        if ok:
             req += [(st, t.id) for t in targets if isinstance(t, ast.Name)]
     ctx.check(len(req) == 1, "store-gate", fi, fi.node, "requesting node = get_requesting_node(<authenticated peer>)",
               "the node whose token is checked is not derived from the authenticated sender")
     rn = req[0][1] if len(req) == 1 else None
-    is_rn = lambda e: isinstance(e, ast.Name) and e.id == rn  # noqa: E731
-    is_values = lambda e: _rnorm(fi, e) == f"{payload}.values"  # noqa: E731
-    for a in adds:
-        fs = facts_at(cfg, a)
-        has_node = rn is not None and any(_truth_fact(f, is_rn) for f in fs)
-        size = _size_gate(fi, cfg, a, fs, is_values)
-        count = any(f.op == "lt" and (not f.pos and chain(f.left) == "MAX_VALUES_IN_STORE" and _len_of(fi, f.right, is_values)
-                                      or f.pos and chain(f.right) == "MAX_VALUES_IN_STORE" and _len_of(fi, f.left, is_values)) for f in fs)
-        tok = None
-        for f in fs:
-            if f.op == "truthy" and f.pos and isinstance(f.left, ast.Call) and chain(f.left.func) == "self.check_token":
-                tok = f.left
-        tok_ok = tok is not None and rn is not None and is_rn(strip_cast(arg(tok, 0))) and _rnorm(fi, arg(tok, 1)) == f"{payload}.token"
-        # the token check must see the requesting node, i.e. happen before that local is rebound (closest-nodes loop)
-        if tok_ok:
-            rebinds = [d[0] for d in local_defs(fi, rn) if d[0] is not req[0][0]]
-            tn = [n for n in cfg.nodes if n.kind == "cond" and n.ast is tok]
-            for rb in rebinds:
-                for rbn in cfg.nodes_for(rb):
-                    after = cfg.reach([v for v, lab in rbn.succ])
-                    if any(t in after for t in tn):
-                        tok_ok = False
+    rebinds = [d[0] for d in local_defs(fi, rn) if d[0] is not req[0][0]] if rn is not None else []
+
+    def sees_requester(top_site: ast.AST) -> bool:
+        """the anchor function's `rn` still names the requesting node at top_site (it is not reached after a rebinding)"""
+        tn = cfg.nodes_for(top_site)
+        for rb in rebinds:
+            for rbn in cfg.nodes_for(rb):
+                after = cfg.reach([v for v, lab in rbn.succ])
+                if any(t in after for t in tn):
+                    return False
+        return bool(tn)
+
+    def is_rn(fr: _Frame, e) -> bool:
+        if rn is None or e is None:
+            return False
+        if fr.text(e, follow=False) == rn:
+            return True
+        # inside a helper: its own local bound once to get_requesting_node(<authenticated peer>) is the requesting node as well
+        return fr.up is not None and isinstance(strip_cast(e), ast.Name) and requester_expr(fr, e)
+
+    def is_values(fr: _Frame):
+        return lambda e: fr.text(e) == f"{payload}.values"
+
+    def p_node(fr: _Frame) -> bool:
+        return any(_truth_fact(f, lambda e: is_rn(fr, e)) and sees_requester(fr.root_site() or f.atom) for f in fr.facts())
+
+    def p_size(fr: _Frame) -> bool:
+        return _size_gate(fr, is_values(fr))
+
+    def p_count(fr: _Frame) -> bool:
+        iv = is_values(fr)
+        return any(f.op == "lt" and (not f.pos and chain(f.left) == "MAX_VALUES_IN_STORE" and _len_of(fr, f.right, iv)
+                                     or f.pos and chain(f.right) == "MAX_VALUES_IN_STORE" and _len_of(fr, f.left, iv)) for f in fr.facts())
+
+    def p_token(fr: _Frame) -> bool:
+        for f in fr.facts():
+            if f.op == "truthy" and f.pos and isinstance(f.left, ast.Call) and chain(f.left.func) == "self.check_token" \
+                    and is_rn(fr, arg(f.left, 0)) and fr.text(arg(f.left, 1)) == f"{payload}.token":
+                # the token check must see the requesting node, i.e. happen before that local is rebound (closest-nodes loop)
+                if sees_requester(fr.root_site() or f.left):
+                    return True
+        return False
+
+    for fr in adds:
+        a = fr.site
+        has_node, size, count, tok_ok = _holds(fr, p_node), _holds(fr, p_size), _holds(fr, p_count), _holds(fr, p_token)
         val = strip_cast(arg(a, 1)) if arg(a, 1) is not None else None
-        val_ok = isinstance(val, ast.Name) and any(isinstance(l, ast.For) and is_values(_unwrap_iter(l.iter)) and isinstance(l.target, ast.Name)
-                                                   and l.target.id == val.id for l in ancestors(a)) and len(local_defs(fi, val.id)) == 1
-        key_ok = _rnorm(fi, arg(a, 0)) == f"{payload}.target"
-        ctx.check(has_node and size and count and tok_ok and val_ok and key_ok, "store-gate", fi, a,
+        iv = is_values(fr)
+        val_ok = _element_of_values(fr.fi, a, val, iv)
+        key_ok = fr.text(arg(a, 0)) == f"{payload}.target"
+        ctx.check(has_node and size and count and tok_ok and val_ok and key_ok, "store-gate", fr.fi, a,
                   "add_value dominated by: requesting node, all values <= MAX_ENTRY_SIZE, count <= MAX_VALUES_IN_STORE, check_token(node, payload.token)",
                   f"a value can be stored without the token/size/count gate (node={has_node} size={size} count={count} token={tok_ok} values={val_ok} key={key_ok})",
-                  [str(f) for f in fs])
+                  [str(f) for f in fr.facts()])
+    # nobody else stores on behalf of a requester: add_value is called from the gated sites above and from store_on_nodes
+    # (the node's own lookups / publications), or from private helpers that only they use
+    checked = {id(fr.site) for fr in adds}
+    for _m, g, c in repo.callers_of_name("add_value"):
+        own = _used_only_by(repo, g, {"DHTCommunity.store_on_nodes"})
+        gated = not own and _used_only_by(repo, g, {fi.qualname})
+        if gated and id(c) not in checked:
+            raise AnalysisError(f"undecided: `{norm(c)}` in {g.qualname} is only used by on_store_request, but how the handler reaches it is not decided")
+        ok = own or gated
+        ctx.check(ok, "store-gate", g or DC, c, "add_value is called only behind the store gate (or for the node's own values)",
+                  "a value is stored by code that is not behind the token/size/count gate of on_store_request")
     m = repo.module(DC)
     for name, lo, hi in (("MAX_ENTRY_SIZE", 1, 1000), ("MAX_VALUES_IN_STORE", 1, 100), ("TOKEN_EXPIRATION_TIME", 1, 3600)):
         v = repo.resolve_const(m, m.constants.get(name)) if name in m.constants else None
@@ -234,14 +872,55 @@ def rule_store_gate(ctx: Ctx) -> None:
 
 
 # ------------------------------------------------------------------------------------------------ tokens
-def _token_preimage(fi: FuncInfo, e: ast.AST):
-    """hashlib.sha1(<node bytes> + <secret>).digest() -> (node bytes expr, secret expr); locals are followed"""
+def _call_as_expr(ctx: Ctx | None, fi: FuncInfo, call: ast.AST, depth: int = 0):
+    """the value of a call of a straight-line helper (`x = ..; y = ..; return E`, no branches, every local assigned once) as
+    one expression in the caller's terms: locals replaced by their definitions, parameters by the arguments; None otherwise.
+    (What the load-time inliner does for statements, for a call that sits inside an expression such as a generator.)"""
+    if ctx is None or depth > 2 or not isinstance(call, ast.Call):
+        return None
+    ts = _call_targets(ctx, fi, call)
+    if not ts or len(ts) != 1:
+        return None
+    h, bound = ts[0]
+    body = [st for st in h.node.body if not (isinstance(st, ast.Expr) and isinstance(st.value, ast.Constant) and isinstance(st.value.value, str))]
+    if not body or not isinstance(body[-1], ast.Return) or body[-1].value is None:
+        return None
+    ps = h.params()
+    pos = ps[1:] if bound and ps else ps
+    env: dict[str, ast.AST] = dict(zip(pos, call.args))
+    env.update({k.arg: k.value for k in call.keywords if k.arg in ps})
+    if bound and ps:
+        env[ps[0]] = ast.Name(id="self", ctx=ast.Load())
+    if any(local_defs(h, p_) for p_ in ps):
+        return None
+    for st in body[:-1]:
+        if not (isinstance(st, (ast.Assign, ast.AnnAssign)) and st.value is not None):
+            return None
+        tg = st.targets if isinstance(st, ast.Assign) else [st.target]
+        if len(tg) != 1 or not isinstance(tg[0], ast.Name) or len(local_defs(h, tg[0].id)) != 1 or tg[0].id in env:
+            return None
+        env[tg[0].id] = _subst(st.value, env, {})
+    used = {n.id for n in ast.walk(body[-1].value) if isinstance(n, ast.Name)}
+    if any(p_ in used and p_ not in env for p_ in ps):
+        return None
+    return _subst(body[-1].value, env, {})
+
+
+def _token_preimage(fi: FuncInfo, e: ast.AST, ctx: Ctx | None = None):
+    """hashlib.sha1(<node bytes> + <secret>).digest() -> (node bytes expr, secret expr); locals and straight-line helpers are followed"""
     e = resolve(fi, e)
+    for _ in range(2):
+        x = _call_as_expr(ctx, fi, e)
+        if x is None:
+            break
+        e = resolve(fi, x)
     if isinstance(e, ast.Call) and call_name(e) == "digest" and not e.args and isinstance(e.func, ast.Attribute) \
             and isinstance(e.func.value, ast.Call) and chain(e.func.value.func) == "hashlib.sha1" and len(e.func.value.args) == 1:
         pre = resolve(fi, e.func.value.args[0])
+        pre = _call_as_expr(ctx, fi, pre) or pre
         if isinstance(pre, ast.BinOp) and isinstance(pre.op, ast.Add):
-            return resolve(fi, pre.left), resolve(fi, pre.right)
+            l, r = resolve(fi, pre.left), resolve(fi, pre.right)
+            return _call_as_expr(ctx, fi, l) or l, _call_as_expr(ctx, fi, r) or r
     return None
 
 
@@ -255,13 +934,15 @@ def _node_bytes(fi: FuncInfo, e: ast.AST, param: str) -> bool:
     return isinstance(s, ast.Call) and chain(s.func) == "str" and len(s.args) == 1 and not s.keywords and _rnorm(fi, s.args[0]) == param
 
 
-def _token_match(ct: FuncInfo, f, secret_var: str) -> bool:
-    """fact: sha1(str(node) + <secret_var>) == token"""
+def _token_match(ct: FuncInfo, f, secret_var: str, env: dict | None = None, ctx: Ctx | None = None) -> bool:
+    """fact: sha1(str(node) + <secret_var>) == token   (env: names standing for expressions, e.g. the loop variable of a
+    `for candidate in <generator helper>` loop standing for the expression the helper yields)"""
     node_p, tok_p = ct.params()[1], ct.params()[2]
     if f.op != "eq" or not f.pos:
         return False
-    for a, b in ((f.left, f.right), (f.right, f.left)):
-        pre = _token_preimage(ct, a)
+    left, right = (f.left, f.right) if not env else (_subst(f.left, env, {}), _subst(f.right, env, {}))
+    for a, b in ((left, right), (right, left)):
+        pre = _token_preimage(ct, a, ctx)
         if pre is not None and _node_bytes(ct, pre[0], node_p) and isinstance(pre[1], ast.Name) and pre[1].id == secret_var \
                 and _rnorm(ct, b) == tok_p:
             return True
@@ -272,6 +953,48 @@ def _is_secrets(e: ast.AST) -> bool:
     return norm(_unwrap_iter(e)) == "self.token_secrets"
 
 
+def _generator_call_as_genexp(ctx: Ctx, fi: FuncInfo, e: ast.AST):
+    """the call of a generator helper whose body is `for T in ITER: [if C:] yield E`, written as the generator expression
+    (E for T in ITER [if C]) it equals, with the helper's parameters replaced by the call's arguments; None otherwise"""
+    e = resolve(fi, _unwrap_iter(e))
+    if not isinstance(e, ast.Call) or any(isinstance(a, ast.Starred) for a in e.args) or any(k.arg is None for k in e.keywords):
+        return None
+    ts = _callee_targets(ctx.repo, fi, e.func)
+    if not ts or len(ts) != 1 or ts[0][0].is_async:
+        return None
+    h, bound = ts[0]
+    body = [st for st in h.node.body if not (isinstance(st, ast.Expr) and isinstance(st.value, ast.Constant) and isinstance(st.value.value, str))]
+    if len(body) != 1 or not isinstance(body[0], ast.For) or body[0].orelse or not isinstance(body[0].target, ast.Name):
+        return None
+    loop, inner, ifs = body[0], body[0].body, []
+    if len(inner) == 1 and isinstance(inner[0], ast.If) and not inner[0].orelse:
+        ifs, inner = [inner[0].test], inner[0].body
+    if len(inner) != 1 or not (isinstance(inner[0], ast.Expr) and isinstance(inner[0].value, ast.Yield) and inner[0].value.value is not None):
+        return None
+    ps = h.params()
+    pos = ps[1:] if bound and ps else ps
+    mapping = dict(zip(pos, e.args))
+    mapping.update({k.arg: k.value for k in e.keywords if k.arg in ps})
+    if bound and ps:
+        mapping[ps[0]] = ast.Name(id="self", ctx=ast.Load())
+    used = {n.id for x in (loop.iter, inner[0].value.value, *ifs) for n in ast.walk(x) if isinstance(n, ast.Name)}
+    if any(local_defs(h, p) for p in ps) or loop.target.id in {n.id for a in mapping.values() for n in ast.walk(a) if isinstance(n, ast.Name)} \
+            or any(p in used and p not in mapping for p in ps):
+        return None
+    mk = lambda x: _subst(x, mapping, {})  # noqa: E731
+    return ast.GeneratorExp(elt=mk(inner[0].value.value),
+                            generators=[ast.comprehension(target=clone(loop.target), iter=mk(loop.iter), ifs=[mk(t) for t in ifs], is_async=0)])
+
+
+def _flatten_gen(ctx: Ctx, fi: FuncInfo, gen):
+    """(elt for x in <generator helper call>) -> the same elements written over the helper's own loop"""
+    if len(gen.generators) == 1 and isinstance(gen.generators[0].target, ast.Name) and not gen.generators[0].ifs:
+        inner = _generator_call_as_genexp(ctx, fi, gen.generators[0].iter)
+        if inner is not None:
+            return ast.GeneratorExp(elt=_subst(gen.elt, {gen.generators[0].target.id: inner.elt}, {}), generators=inner.generators)
+    return gen
+
+
 def _check_token_ok(ctx: Ctx, ct: FuncInfo) -> bool:
     """check_token answers truthy only when sha1(str(node) + s) == token for some s in self.token_secrets"""
     cfg = ctx.cfg(ct)
@@ -279,8 +1002,19 @@ def _check_token_ok(ctx: Ctx, ct: FuncInfo) -> bool:
     if local_defs(ct, ct.params()[1]) or local_defs(ct, tok_p):
         return False
     positive = 0
+    sites = []
     for r in _returns(ct):
         v = resolve(ct, r.value) if r.value is not None else ast.Constant(value=None)
+        if isinstance(v, ast.Name) and len(local_defs(ct, v.id)) > 1 and v.id not in ct.params():
+            # a flag local: `valid = False` ... `valid = True` (under the match) ... `return valid`
+            for st, val, idx in local_defs(ct, v.id):
+                if val is None or idx is not None or not isinstance(strip_cast(val), ast.Constant):
+                    return False
+                if strip_cast(val).value:
+                    sites.append((st, strip_cast(val)))
+            continue
+        sites.append((r, v))
+    for r, v in sites:
         if isinstance(v, ast.Constant):
             if not v.value:
                 continue
@@ -288,27 +1022,35 @@ def _check_token_ok(ctx: Ctx, ct: FuncInfo) -> bool:
             fs = facts_at(cfg, r)
             ok = False
             for l in ancestors(r):
-                if isinstance(l, ast.For) and isinstance(l.target, ast.Name) and _is_secrets(l.iter) and len(local_defs(ct, l.target.id)) == 1:
-                    ok = ok or any(_token_match(ct, f, l.target.id) and l in list(ancestors(f.atom)) for f in fs)
+                if not (isinstance(l, ast.For) and isinstance(l.target, ast.Name) and len(local_defs(ct, l.target.id)) == 1):
+                    continue
+                if _is_secrets(l.iter):
+                    ok = ok or any(_token_match(ct, f, l.target.id, None, ctx) and l in list(ancestors(f.atom)) for f in fs)
+                    continue
+                inner = _generator_call_as_genexp(ctx, ct, l.iter)     # for candidate in self._tokens_for(node): ...
+                if inner is not None and not inner.generators[0].ifs and _is_secrets(inner.generators[0].iter):
+                    ok = ok or any(_token_match(ct, f, inner.generators[0].target.id, {l.target.id: inner.elt}, ctx) and l in list(ancestors(f.atom)) for f in fs)
             if not ok:
                 return False
             positive += 1
             continue
         gen = None
         if isinstance(v, ast.Call) and chain(v.func) == "any" and len(v.args) == 1 and isinstance(v.args[0], (ast.GeneratorExp, ast.ListComp)):
-            gen = v.args[0]
+            gen = _flatten_gen(ctx, ct, v.args[0])
             atoms = _atoms_with_polarity(gen.elt, True)
-        elif isinstance(v, ast.Compare) and len(v.ops) == 1 and isinstance(v.ops[0], ast.In) and _rnorm(ct, v.left) == tok_p \
-                and isinstance(v.comparators[0], (ast.GeneratorExp, ast.ListComp, ast.SetComp)):
-            # token in [sha1(str(node) + s) for s in secrets]
-            gen = v.comparators[0]
-            atoms = [fact_of(ast.Compare(left=gen.elt, ops=[ast.Eq()], comparators=[v.left]), True)]
+        elif isinstance(v, ast.Compare) and len(v.ops) == 1 and isinstance(v.ops[0], ast.In) and _rnorm(ct, v.left) == tok_p:
+            # token in [sha1(str(node) + s) for s in secrets]   /   token in self._tokens_for(node)
+            gen = v.comparators[0] if isinstance(v.comparators[0], (ast.GeneratorExp, ast.ListComp, ast.SetComp)) \
+                else _generator_call_as_genexp(ctx, ct, v.comparators[0])
+            if gen is not None:
+                gen = _flatten_gen(ctx, ct, gen)
+                atoms = [fact_of(ast.Compare(left=gen.elt, ops=[ast.Eq()], comparators=[v.left]), True)]
         if gen is None or len(gen.generators) != 1:
             return False
         g = gen.generators[0]
         if g.ifs or g.is_async or not isinstance(g.target, ast.Name) or not _is_secrets(g.iter):
             return False
-        if len(atoms) != 1 or not _token_match(ct, atoms[0], g.target.id):
+        if len(atoms) != 1 or not _token_match(ct, atoms[0], g.target.id, None, ctx):
             return False
         positive += 1
     return positive >= 1
@@ -319,7 +1061,7 @@ def rule_token(ctx: Ctx) -> None:
     gt = repo.method("DHTCommunity", "generate_token", DC)
     ct = repo.method("DHTCommunity", "check_token", DC)
     gr = _returns(gt)
-    g = _token_preimage(gt, gr[0].value) if len(gr) == 1 and gr[0].value is not None else None
+    g = _token_preimage(gt, gr[0].value, ctx) if len(gr) == 1 and gr[0].value is not None else None
     ok_g = g is not None and not local_defs(gt, gt.params()[1]) and _node_bytes(gt, g[0], gt.params()[1]) and norm(g[1]) == "self.token_secrets[-1]"
     ctx.check(ok_g, "token-preimage", gt, gt.node, "token = sha1(str(node) + newest secret)", "generate_token does not bind the token to the requester identity and the newest secret")
     ok_c = _check_token_ok(ctx, ct)
@@ -332,25 +1074,28 @@ def rule_token(ctx: Ctx) -> None:
             sec_stores.append((fi, enclosing_stmt(a)))
         if isinstance(p, ast.Attribute) and isinstance(parent(p), ast.Call) and p.attr in ("append", "appendleft", "extend", "clear", "pop", "popleft", "insert"):
             appends.append((fi, parent(p)))
-    ok = len(sec_stores) == 1 and sec_stores[0][0].name == "__init__"
+    ok = len(sec_stores) == 1 and _used_only_by(repo, sec_stores[0][0], {"DHTCommunity.__init__"})
     if ok:
         v = strip_cast(sec_stores[0][1].value)
         ok = isinstance(v, ast.Call) and chain(v.func) in ("deque", "collections.deque") and const_value(arg(v, 1, "maxlen")) == 2
     ctx.check(ok, "token-preimage", DC, "token_secrets", "token_secrets = deque(maxlen=2), assigned once", "more than two secrets stay valid (or the deque is rebound)")
     for fi, c in appends:
-        ok = fi is not None and fi.qualname == "DHTCommunity.token_maintenance" and call_name(c) == "append"
+        ok = _used_only_by(repo, fi, {"DHTCommunity.token_maintenance"}) and call_name(c) == "append"
         if ok:
             rnd = resolve(fi, arg(c, 0))
             n = const_value(arg(rnd, 0)) if isinstance(rnd, ast.Call) and chain(rnd.func) == "os.urandom" else None
             ok = type(n) is int and n >= 16
         ctx.check(ok, "token-preimage", fi or DC, c, "secrets appended only by token_maintenance (os.urandom(16))", "token secrets are modified elsewhere or are not random")
     init = repo.method("DHTCommunity", "__init__", DC)
-    regs = [c for c in calls(init, "self.register_task") if chain(arg(c, 1)) == "self.token_maintenance"]
+    # the constructor, or a private set-up helper only the constructor uses
+    setup = [init] + [f for f in init.cls.methods.values() if f is not init and f.name.startswith("_") and _used_only_by(repo, f, {init.qualname})]
+    reg_calls = [c for f in setup for c in calls(f, "self.register_task")]
+    regs = [c for c in reg_calls if chain(arg(c, 1)) == "self.token_maintenance"]
     iv = repo.resolve_const(init.module, arg(regs[0], None, "interval")) if regs else None
     exp = repo.resolve_const(init.module, init.module.constants["TOKEN_EXPIRATION_TIME"])
     ctx.check(isinstance(iv, int) and iv > 0 and 2 * iv <= exp, "token-preimage", init, init.node, f"token_maintenance every {iv}s; two live secrets => validity <= {exp}s",
               "token rotation is not scheduled such that a token expires within TOKEN_EXPIRATION_TIME")
-    vm = [c for c in calls(init, "self.register_task") if chain(arg(c, 1)) == "self.value_maintenance"]
+    vm = [c for c in reg_calls if chain(arg(c, 1)) == "self.value_maintenance"]
     ctx.check(bool(vm) and (repo.resolve_const(init.module, arg(vm[0], None, "interval")) or 0) > 0, "expiry-sweep", init, init.node,
               "value_maintenance registered periodically", "expired values are never cleaned (value_maintenance not scheduled)")
     vmf = repo.method("DHTCommunity", "value_maintenance", DC)
@@ -370,83 +1115,277 @@ def rule_token(ctx: Ctx) -> None:
 
 
 # ------------------------------------------------------------------------------------------------ signed values
+def _result_leaves(ctx: Ctx, fr: _Frame, e: ast.AST | None, depth: int = 0, stop=None):
+    """(frame, expression) for every way the expression written at the frame's site may produce its value: both arms of a
+    conditional, the operands of and/or, and - when it is the call of a helper of this code (also one picked from a
+    dispatch table) - the helper's own results, with the helper's parameters bound to the arguments"""
+    v = resolve(fr.fi, e) if e is not None else ast.Constant(value=None)
+    if isinstance(v, ast.IfExp):
+        yield from _result_leaves(ctx, fr.at(fr.site, extra=fr.extra + _atoms_with_polarity(v.test, True)), v.body, depth, stop)
+        yield from _result_leaves(ctx, fr.at(fr.site, extra=fr.extra + _atoms_with_polarity(v.test, False)), v.orelse, depth, stop)
+        return
+    if isinstance(v, ast.BoolOp):
+        for x in v.values:
+            yield from _result_leaves(ctx, fr, x, depth, stop)
+        return
+    if stop is not None and stop(fr, v):
+        yield fr, v
+        return
+    if isinstance(v, ast.Call) and depth < _MAX_DEPTH:
+        ts = _call_targets(ctx, fr.fi, v)
+        if ts:
+            up = fr.at(fr.site, extra=fr.extra)
+            up.ctx_up = True
+            for h, bound in ts:
+                for r in _returns(h):
+                    sub = _Frame(ctx, h, r, up=up, call=v, bound=bound, ctx_up=True)
+                    yield from _result_leaves(ctx, sub, r.value, depth + 1, stop)
+            return
+    if isinstance(v, ast.Name) and v.id not in fr.fi.params() and depth < _MAX_DEPTH + 2:
+        # a result local with several definitions: each definition is a way of producing the value, under the facts that hold there
+        defs = local_defs(fr.fi, v.id)
+        if len(defs) > 1 and all(val is not None and idx is None and isinstance(st, (ast.Assign, ast.AnnAssign)) for st, val, idx in defs):
+            for st, val, _ in defs:
+                yield from _result_leaves(ctx, fr.at(st), val, depth + 1, stop)
+            return
+    yield fr, v
+
+
+def _argument_sources(repo, g: FuncInfo, e: ast.AST | None, site: ast.AST, ctx: Ctx, depth: int = 0):
+    """[(function, expression)] the value of argument e comes from: locals followed to the definition that reaches the
+    site, list()/tuple() copies removed, a parameter followed to the arguments of the function's callers"""
+    if e is None:
+        return []
+    e = _unwrap_iter(e)
+    for _ in range(6):
+        if not isinstance(e, ast.Name):
+            break
+        if e.id in g.params() and not local_defs(g, e.id):
+            if depth >= 2:
+                return [(g, e)]
+            i = g.params().index(e.id) - (1 if g.cls is not None and not _is_static(g) else 0)
+            out = []
+            for _m, h, c in repo.callers_of_name(g.name):
+                if h is None or i < 0:
+                    return [(g, e)]
+                out += _argument_sources(repo, h, arg(c, i, e.id), c, ctx, depth + 1) or [(g, e)]
+            return out or [(g, e)]
+        d = _reaching_def(g, e.id, ctx.cfg(g), site)
+        if d is None or d[1] is not None:
+            break
+        e = _unwrap_iter(d[0])
+    return [(g, e)]
+
+
+def _version_key(call: ast.Call, vpos: int) -> bool:
+    """max / sorted / sort call orders entries by their version element (position vpos)"""
+    key = arg(call, None, "key")
+    if key is None:
+        return vpos == 0                   # tuples compare by their first element first
+    if isinstance(key, ast.Lambda) and len(key.args.args) == 1:
+        b = key.body
+        return isinstance(b, ast.Subscript) and isinstance(b.value, ast.Name) and b.value.id == key.args.args[0].arg and const_value(b.slice) == vpos \
+            and type(const_value(b.slice)) is int
+    return isinstance(key, ast.Call) and chain(key.func) in ("itemgetter", "operator.itemgetter") and len(key.args) == 1 \
+        and type(const_value(key.args[0])) is int and const_value(key.args[0]) == vpos
+
+
+def _selects_newest_per_signer(ctx: Ctx, pp: FuncInfo) -> bool:
+    """
+    post_process_values reports, per signer, an entry with the highest verified version.  Two ways of computing it:
+      (A) collect (version, data) entries per signer, then take max(..) / the head of a descending sort by the version;
+      (B) keep one entry per signer and overwrite it only on paths where the signer was absent or the new version is
+          higher (or equal) than the kept one - a running maximum, decided as a path query.
+    Signer / data / version are the elements 1 / 0 / 2 of the unserialize_value result, followed through locals.
+    """
+    cfgp = ctx.cfg(pp)
+    is_unser = lambda e: isinstance(e, ast.Call) and chain(e.func) == "self.unserialize_value"  # noqa: E731
+
+    def elem(x, site):
+        el = _elem_of(pp, x, cfgp, site)
+        return el[1] if el is not None and is_unser(el[0]) else None
+
+    def version_pos(t, site):
+        """where the version sits in a kept entry that also carries the data (None: not such an entry)"""
+        t = strip_cast(t)
+        if isinstance(t, (ast.Tuple, ast.List)):
+            idx = [elem(x, site) for x in t.elts]
+            return idx.index(2) if 2 in idx and 0 in idx else None
+        return 2 if is_unser(resolve(pp, t)) else None      # the unserialized (data, key, version) tuple itself
+
+    def signer_slot(e, site):
+        """e denotes <dict>[<signer>] / <dict>.setdefault(<signer>, ..) / <dict>.get(<signer>, ..): -> the dict expression"""
+        e = resolve(pp, e)
+        if isinstance(e, ast.Subscript) and elem(e.slice, site) == 1:
+            return e.value
+        if isinstance(e, ast.Call) and isinstance(e.func, ast.Attribute) and e.func.attr in ("setdefault", "get") and e.args and elem(e.args[0], site) == 1:
+            return e.func.value
+        return None
+
+    # (A) per-signer collection + maximum
+    vpos = None
+    for c in calls(pp):
+        if call_name(c) != "append" or len(c.args) != 1 or not isinstance(c.func, ast.Attribute):
+            continue
+        if signer_slot(c.func.value, c) is None:
+            continue                               # not the per-signer collection
+        vp = version_pos(c.args[0], c)
+        if vp is not None:
+            vpos = vp
+    if vpos is not None:
+        best = [c for c in calls(pp, "max") if len(c.args) == 1 and _version_key(c, vpos)]
+        for c in calls(pp, "sorted"):
+            p = parent(c)
+            rev = arg(c, None, "reverse")
+            desc = rev is not None and const_value(rev) is True
+            if isinstance(p, ast.Subscript) and p.value is c and len(c.args) == 1 and (rev is None or isinstance(rev, ast.Constant)) \
+                    and const_value(p.slice) == (0 if desc else -1) and type(const_value(p.slice)) is int and _version_key(c, vpos):
+                best.append(c)
+        if len(best) == 1 and len(calls(pp, "max")) + len(calls(pp, "sorted")) == 1:
+            return True
+
+    # (B) running maximum
+    keeps = []
+    for st, targets, value in _assignments(pp):
+        for t in targets:
+            if isinstance(t, ast.Subscript) and isinstance(strip_cast(t.value), ast.Name) and elem(t.slice, st) == 1:
+                vp, selfmax = version_pos(value, st), False
+                v = strip_cast(value)
+                if vp is None and isinstance(v, ast.Call) and chain(v.func) == "max" and len(v.args) == 2:
+                    # D[signer] = max(D.get(signer, <entry>), <entry>, key=version): the kept entry never gets older
+                    dn = strip_cast(t.value).id
+                    for old_e, new_e in ((v.args[0], v.args[1]), (v.args[1], v.args[0])):
+                        r = resolve(pp, old_e)
+                        nvp = version_pos(new_e, st)
+                        kept = isinstance(r, ast.Subscript) and chain(r.value) == dn and elem(r.slice, st) == 1 or \
+                            isinstance(r, ast.Call) and chain(r.func) == dn + ".get" and r.args and elem(r.args[0], st) == 1 \
+                            and (len(r.args) == 1 or version_pos(r.args[1], st) == nvp)
+                        if kept and nvp is not None and _version_key(v, nvp):
+                            vp, selfmax = nvp, True
+                keeps.append((st, strip_cast(t.value).id, vp, selfmax))
+    if not keeps or len({k[1] for k in keeps}) != 1 or any(k[2] is None for k in keeps):
+        return False
+    dname = keeps[0][1]
+    if len(local_defs(pp, dname)) != 1 or dname in pp.params():
+        return False
+    is_d = lambda e: isinstance(strip_cast(e), ast.Name) and strip_cast(e).id == dname  # noqa: E731
+
+    def kept_entry(e, site):
+        """e reads the entry kept for this signer: D[signer] / D.get(signer)"""
+        d = signer_slot(e, site)
+        e = resolve(pp, e)
+        return d is not None and is_d(d) and not (isinstance(e, ast.Call) and e.func.attr == "setdefault")
+
+    for st, _, vp, selfmax in keeps:
+        if selfmax:
+            continue
+
+        def kept_version(e, st=st, vp=vp):
+            el = _elem_of(pp, e, cfgp, st)
+            return el is not None and el[1] == vp and kept_entry(el[0], st)
+
+        def absent_or_newer(u, v, lab, st=st, kept_version=kept_version):
+            f = _cond_edge_fact(u, lab)
+            if f is None:
+                return False
+            if f.op == "in" and not f.pos and elem(f.left, st) == 1:
+                r = _unwrap_iter(f.right)
+                return is_d(r) or isinstance(r, ast.Call) and chain(r.func) == f"{dname}.keys"
+            if f.op == "is" and f.pos and _is_none(f.right):
+                return kept_entry(f.left, st)                     # D.get(signer) is None
+            if f.op == "truthy" and not f.pos:
+                return kept_entry(f.left, st) and isinstance(resolve(pp, f.left), ast.Call)      # not D.get(signer): entries are non-empty tuples
+            if f.op == "lt":
+                return f.pos and kept_version(f.left) and elem(f.right, st) == 2 or not f.pos and elem(f.left, st) == 2 and kept_version(f.right)
+            return False
+        ns = [n for n in cfgp.nodes_for(st) if cfgp.reachable(n)]
+        if not ns or not all(cfgp.must_pass_edges(n, absent_or_newer) for n in ns):
+            return False
+    # nothing else changes the kept entries, and the result is built from them
+    for c in calls(pp):
+        if isinstance(c.func, ast.Attribute) and is_d(c.func.value) and c.func.attr in ("pop", "popitem", "clear", "update", "setdefault", "__setitem__", "__delitem__"):
+            return False
+    for st, e in stores(pp, lambda c: c in (dname + "[]", dname)):
+        if isinstance(st, (ast.Delete, ast.AugAssign)) or (chain(e) == dname + "[]" and st not in [k[0] for k in keeps]):
+            return False
+    uses = [x for r in _returns(pp) if r.value is not None for x in ast.walk(r.value)]
+    uses += [x for l in walk_no_nested(pp.node) if isinstance(l, (ast.For, ast.comprehension)) for x in ast.walk(l.iter)]
+    return any(isinstance(x, ast.Name) and x.id == dname for x in uses)
+
+
 def rule_signed(ctx: Ctx) -> None:
     repo = ctx.repo
     fi = repo.method("DHTCommunity", "unserialize_value", DC)
-    cfg = ctx.cfg(fi)
     value = fi.params()[1]
     ctx.check(not local_defs(fi, value), "signed-means-verified", fi, fi.node, "value parameter not rebound", "unserialize_value rebinds its input")
-    is_value = lambda e: _rnorm(fi, e) == value  # noqa: E731
+    root = _Frame(ctx, fi, fi.node)
     n = 0
     for r in _returns(fi):
-        rv = resolve(fi, r.value) if r.value is not None else None
-        if rv is None or _is_none(rv):
-            continue
-        if not (isinstance(rv, ast.Tuple) and len(rv.elts) == 3):
-            if isinstance(rv, ast.Name) and all(d[1] is not None and (_is_none(d[1]) or isinstance(d[1], ast.Tuple) and len(d[1].elts) == 3
-                                                                      and _is_none(d[1].elts[1])) for d in local_defs(fi, rv.id)):
-                continue                       # a local that only ever holds None / an unsigned result
-            raise AnalysisError(f"undecided: unserialize_value returns `{norm(r.value)}`, which is not a (data, key, version) tuple or None")
-        pk = resolve(fi, rv.elts[1])
-        if _is_none(pk):
-            continue
-        n += 1
-        fs = facts_at(cfg, r)
-        ok = False
-        for f in fs:
-            if f.op == "truthy" and f.pos and isinstance(f.left, ast.Call) and call_name(f.left) == "is_valid_signature" and len(f.left.args) == 3 \
-                    and not f.left.keywords:
-                k, d, s = (resolve(fi, a) for a in f.left.args)
-                key_ok = isinstance(k, ast.Call) and call_name(k) == "key_from_public_bin" and _rnorm(fi, arg(k, 0)) == norm(pk)
+        for fr, rv in _result_leaves(ctx, root.at(r), r.value):
+            lf = fr.fi
+            is_value = lambda e, fr=fr: fr.text(e) == value  # noqa: E731
+            if rv is None or _is_none(rv):
+                continue
+            if not (isinstance(rv, ast.Tuple) and len(rv.elts) == 3):
+                if isinstance(rv, ast.Name) and all(d[1] is not None and (_is_none(d[1]) or isinstance(d[1], ast.Tuple) and len(d[1].elts) == 3
+                                                                          and _is_none(d[1].elts[1])) for d in local_defs(lf, rv.id)):
+                    continue                       # a local that only ever holds None / an unsigned result
+                raise AnalysisError(f"undecided: unserialize_value returns `{norm(rv)}`, which is not a (data, key, version) tuple or None")
+            pk = resolve(lf, rv.elts[1])
+            if _is_none(pk):
+                continue
+            n += 1
+            pk_text = fr.text(pk)
 
-                def neg_len(e, k=k):
-                    e = resolve(fi, e)
-                    e2 = resolve(fi, e.operand) if isinstance(e, ast.UnaryOp) and isinstance(e.op, ast.USub) else None
-                    return isinstance(e2, ast.Call) and call_name(e2) == "get_signature_length" and norm(resolve(fi, arg(e2, 0))) == norm(k)
-                d_ok = isinstance(d, ast.Subscript) and is_value(d.value) and isinstance(d.slice, ast.Slice) and d.slice.lower is None \
-                    and d.slice.step is None and d.slice.upper is not None and neg_len(d.slice.upper)
-                s_ok = isinstance(s, ast.Subscript) and is_value(s.value) and isinstance(s.slice, ast.Slice) and s.slice.upper is None \
-                    and s.slice.step is None and s.slice.lower is not None and neg_len(s.slice.lower)
-                ok = ok or (key_ok and d_ok and s_ok)
-        # the reported key is the one carried in the verified payload
-        src = isinstance(pk, ast.Attribute) and pk.attr == "public_key"
-        ctx.check(ok and src, "signed-means-verified", fi, r, "a signer is reported only under is_valid_signature(key(payload.public_key), value[:-L], value[-L:])",
-                  "unserialize_value reports data as signed by a key without verifying the signature over the whole value with that key", [str(f) for f in fs])
+            def verified(g: _Frame, pk_text=pk_text) -> bool:
+                gi = g.fi
+                g_value = lambda e: g.text(e) == value  # noqa: E731
+                for f in g.facts():
+                    if not (f.op == "truthy" and f.pos and isinstance(f.left, ast.Call) and call_name(f.left) == "is_valid_signature"
+                            and len(f.left.args) == 3 and not f.left.keywords):
+                        continue
+                    k, d, s = (resolve(gi, a) for a in f.left.args)
+                    key_ok = isinstance(k, ast.Call) and call_name(k) == "key_from_public_bin" and g.text(arg(k, 0)) == pk_text
+
+                    def neg_len(e, k=k):
+                        e = resolve(gi, e)
+                        e2 = resolve(gi, e.operand) if isinstance(e, ast.UnaryOp) and isinstance(e.op, ast.USub) else None
+                        return isinstance(e2, ast.Call) and call_name(e2) == "get_signature_length" and norm(resolve(gi, arg(e2, 0))) == norm(k)
+                    d_ok = isinstance(d, ast.Subscript) and g_value(d.value) and isinstance(d.slice, ast.Slice) and d.slice.lower is None \
+                        and d.slice.step is None and d.slice.upper is not None and neg_len(d.slice.upper)
+                    s_ok = isinstance(s, ast.Subscript) and g_value(s.value) and isinstance(s.slice, ast.Slice) and s.slice.upper is None \
+                        and s.slice.step is None and s.slice.lower is not None and neg_len(s.slice.lower)
+                    if key_ok and d_ok and s_ok:
+                        return True
+                return False
+            ok = _holds(fr, verified)
+            # the reported key is the one carried in the verified payload
+            src = isinstance(pk, ast.Attribute) and pk.attr == "public_key"
+            ctx.check(ok and src, "signed-means-verified", lf, fr.site if isinstance(fr.site, ast.AST) else lf.node,
+                      "a signer is reported only under is_valid_signature(key(payload.public_key), value[:-L], value[-L:])",
+                      "unserialize_value reports data as signed by a key without verifying the signature over the whole value with that key",
+                      [str(f) for f in fr.facts()])
     ctx.floor("signed-means-verified", n, 1)
 
     # lookups: per signer the entry with the highest version
     pp = repo.method("DHTCommunity", "post_process_values", DC)
     us = [c for c in calls(pp, "self.unserialize_value")]
-    is_unser = lambda e: isinstance(e, ast.Call) and chain(e.func) == "self.unserialize_value"  # noqa: E731
-    vpos = None
-    for c in calls(pp):
-        t = arg(c, 0)
-        if call_name(c) != "append" or not isinstance(t, ast.Tuple) or len(t.elts) != 2 or not isinstance(c.func, ast.Attribute):
-            continue
-        recv = resolve(pp, c.func.value)
-        cfgp = ctx.cfg(pp)
-        signer = _elem_of(pp, recv.slice, cfgp, c) if isinstance(recv, ast.Subscript) else None
-        if signer is None or not is_unser(signer[0]) or signer[1] != 1:
-            continue                               # not the per-signer collection
-        el = [_elem_of(pp, x, cfgp, c) for x in t.elts]
-        for i in (0, 1):
-            if el[i] is not None and is_unser(el[i][0]) and el[i][1] == 2 and el[1 - i] is not None and is_unser(el[1 - i][0]) and el[1 - i][1] == 0:
-                vpos = i
-    mx = [c for c in calls(pp, "max")]
-    ok = len(mx) == 1 and vpos is not None
-    if ok:
-        key = arg(mx[0], None, "key")
-        if key is None:
-            ok = vpos == 0 and len(mx[0].args) == 1  # tuples compare by their first element (the version) first
-        elif isinstance(key, ast.Lambda) and len(key.args.args) == 1:
-            b = key.body
-            ok = isinstance(b, ast.Subscript) and isinstance(b.value, ast.Name) and b.value.id == key.args.args[0].arg and const_value(b.slice) == vpos \
-                and type(const_value(b.slice)) is int
-        else:
-            ok = isinstance(key, ast.Call) and chain(key.func) in ("itemgetter", "operator.itemgetter") and len(key.args) == 1 \
-                and type(const_value(key.args[0])) is int and const_value(key.args[0]) == vpos
+    ok = _selects_newest_per_signer(ctx, pp)
     ctx.check(ok, "signed-means-verified", pp, pp.node, "per signer the entry with max(version) is reported", "lookups do not report the highest version per signer")
     ctx.check(len(us) == 1, "signed-means-verified", pp, pp.node, "lookup results go through unserialize_value", "lookup results bypass signature verification")
+
+    # the selection ranges over everything the lookup received: post_process_values gets <crawl>.values itself, not a part of it
+    feeds = [(g, c) for _m, g, c in repo.callers_of_name("post_process_values")
+             if g is not None and isinstance(c.func, ast.Attribute) and chain(c.func.value) == "self" and g.cls is not None and g.cls.is_subclass_of("DHTCommunity")]
+    ctx.anchor(feeds, "callers of post_process_values")
+    for g, c in feeds:
+        srcs = _argument_sources(repo, g, arg(c, 0, "values"), c, ctx)
+        whole = lambda e: isinstance(e, ast.Attribute) and e.attr == "values" and isinstance(e.value, ast.Name)  # noqa: E731
+        if any(not whole(e) and not any(whole(x) for x in ast.walk(e)) for _f, e in srcs) or not srcs:
+            raise AnalysisError(f"undecided: where `{norm(c)}` takes its values from is not decided")
+        ctx.check(all(whole(e) for _f, e in srcs), "signed-means-verified", g, c, "every value the lookup received takes part in the per-signer selection",
+                  "the lookup hands only a part of the values it received (`" + "`, `".join(norm(e) for _f, e in srcs if not whole(e))
+                  + "`) to post_process_values: a higher version outside that part is ignored and an older version of the signer's entry is reported")
 
     # add_value stores under sha1(signer) with the verified version
     av = repo.method("DHTCommunity", "add_value", DC)
@@ -468,6 +1407,42 @@ def rule_signed(ctx: Ctx) -> None:
     def signer_present(f):
         return f.op == "truthy" and f.pos and is_elem(f.left, 1)
 
+    def def_leaves(e, site, depth=0):
+        """[(defining statement, expression)] the value of e may come from, through locals with several definitions and
+        through tuples that carry it (`identity = (sha1(signer), version)` ... `id_, version = identity`); None = unknown"""
+        e = strip_cast(e)
+        if depth > 4:
+            return None
+        if not (isinstance(e, ast.Name) and e.id not in av.params()):
+            return [(site, e)]
+        defs = local_defs(av, e.id)
+        if not defs:
+            return [(site, e)]
+        if len(defs) == 1 and defs[0][2] is not None and defs[0][1] is not None and not isinstance(resolve(av, defs[0][1]), (ast.Name, ast.Tuple)):
+            return [(site, e)]                     # a plain unpacking of one value: _elem_of follows it
+        out = []
+        for st, val, idx in defs:
+            if val is None:
+                return None
+            if idx is None:
+                sub = def_leaves(val, st, depth + 1) if isinstance(strip_cast(val), ast.Name) else [(st, strip_cast(val))]
+                if sub is None:
+                    return None
+                out += sub
+                continue
+            carriers = def_leaves(val, st, depth + 1)
+            if carriers is None:
+                return None
+            for st2, x in carriers:
+                x = resolve(av, x)
+                if _is_none(x):
+                    continue                       # None cannot be unpacked: this definition does not get here
+                if isinstance(x, ast.Tuple) and idx < len(x.elts) and not any(isinstance(y, ast.Starred) for y in x.elts):
+                    out.append((st2, x.elts[idx]))
+                else:
+                    out.append((st2, ast.Subscript(value=x, slice=ast.Constant(value=idx), ctx=ast.Load())))
+        return out
+
     def id_ok(put: ast.Call) -> bool:
         e = strip_cast(arg(put, 2, "id_")) if arg(put, 2, "id_") is not None else None
         if e is None:
@@ -482,11 +1457,16 @@ def rule_signed(ctx: Ctx) -> None:
         if not isinstance(r, ast.Name):
             return False
         # several reaching definitions: `id_ = None` and, only for a present signer, `id_ = sha1(signer)`
-        defs = local_defs(av, r.id)
-        hashed = [d for d in defs if d[1] is not None and d[2] is None and is_signer_hash(d[1])]
-        empty = [d for d in defs if d[1] is not None and d[2] is None and _is_none(d[1])]
-        if not hashed or len(hashed) + len(empty) != len(defs):
+        leaves = def_leaves(r, put)
+        if leaves is None or any(st is put for st, _ in leaves):
             return False
+        hashed = [(st, x, None) for st, x in leaves if is_signer_hash(x)]
+        empty = [(st, x, None) for st, x in leaves if _is_none(resolve(av, x))]
+        if not hashed or len(hashed) + len(empty) != len(leaves):
+            return False
+        if all(any(signer_present(f) for f in facts_at(cfgv, d[0])) for d in hashed) \
+                and all(any(f.op == "truthy" and not f.pos and is_elem(f.left, 1) for f in facts_at(cfgv, d[0])) for d in empty):
+            return True                            # each definition is taken exactly for a present / an absent signer
         hn = [n for d in hashed for n in cfgv.nodes_for(d[0])]
         en = [n for d in empty for n in cfgv.nodes_for(d[0])]
         pn = cfgv.nodes_for(put)
@@ -511,9 +1491,10 @@ def rule_signed(ctx: Ctx) -> None:
     ok = len(puts) == 1
     if ok:
         p = puts[0]
-        ok = is_elem(arg(p, 4, "version"), 2) and id_ok(p) and _rnorm(av, arg(p, 0, "key")) == keyp and _rnorm(av, arg(p, 1, "data")) == valp \
+        vl = def_leaves(arg(p, 4, "version"), p) if arg(p, 4, "version") is not None else None
+        ok = bool(vl) and all(is_elem(x, 2) for _st, x in vl) and id_ok(p) and _rnorm(av, arg(p, 0, "key")) == keyp and _rnorm(av, arg(p, 1, "data")) == valp \
             and not local_defs(av, keyp) and not local_defs(av, valp)
-        ok = ok and any(_truth_fact(f, is_unser_v) for f in facts_at(cfgv, p))
+        ok = ok and any(_truth_fact(f, is_unser_v) for f in _Frame(ctx, av, p).facts())
     ctx.check(ok, "signed-means-verified", av, av.node, "add_value stores only values that unserialize (valid signature if signed), keyed by signer, with their version",
               "add_value stores values that failed verification or loses signer/version")
 
@@ -523,19 +1504,30 @@ _LIST_MUTATORS = ("pop", "insert", "remove", "__setitem__", "__delitem__", "clea
 _LIST_QUIET = ("pop", "insert", "sort", "append", "reverse")     # list methods that never raise ValueError
 
 
+def _strip_enumerate(e: ast.AST) -> tuple[ast.AST, bool]:
+    """enumerate(X) -> (X, True): the loop then binds (position, element)"""
+    e = _unwrap_iter(e)
+    if isinstance(e, ast.Call) and chain(e.func) == "enumerate" and e.args:
+        return _unwrap_iter(e.args[0]), True
+    return e, False
+
+
 def _put_version_guard(ctx: Ctx, put: FuncInfo):
     """
     Storage.put: every change of the key's list that can drop or replace an entry happens either when no entry with the
-    new value's id exists (index() raised / `not in` / the index local is None) or after new.version >= old.version
-    was established for old = <list>[<list>.index(new)].  Decided on paths of the CFG, not on the shape of the try/if.
-    Returns (sites: [(node ast, ok, facts)], guards found, new-value names, is_list, is_new, is_old).
+    new value's id exists (index() raised / `not in` / the index local is None / a search loop found none) or after
+    new.version >= old.version was established for old = the stored entry with the new value's id (<list>[<list>.index(new)],
+    or an element of the list for which `== new` holds).  Decided on paths of the CFG, not on the shape of the try/if; when the
+    lookup or the decision lives in a helper, the helper's answer is followed into its returns (frames).
+    Returns (sites: [(node ast, ok, facts)], guard found?, new-value names, is_list, is_new, is_old).
     """
-    cfg = ctx.cfg(put)
     key = put.params()[1]
+    root = _Frame(ctx, put, put.node)
+    list_text = f"self.items[{key}]"
+    found_guard = []
 
-    def is_list(e):
-        r = resolve(put, e)
-        return isinstance(r, ast.Subscript) and chain(r.value) == "self.items" and isinstance(strip_cast(r.slice), ast.Name) and strip_cast(r.slice).id == key
+    def is_list_in(fr: _Frame, e) -> bool:
+        return e is not None and fr.text(e) == list_text
 
     news = {}
     for st, targets, value in _assignments(put):
@@ -546,18 +1538,34 @@ def _put_version_guard(ctx: Ctx, put: FuncInfo):
                     news[t.id] = v
     ctx.anchor(news, "new Value(...) in Storage.put")
 
-    def is_new(e):
-        e = strip_cast(e)
-        return isinstance(e, ast.Name) and e.id in news
+    def is_new_in(fr: _Frame, e) -> bool:
+        return e is not None and fr.text(e, follow=False) in news
 
-    index_calls = [c for c in calls(put) if call_name(c) == "index" and isinstance(c.func, ast.Attribute) and is_list(c.func.value)
-                   and len(c.args) == 1 and is_new(c.args[0])]
-    ctx.anchor(index_calls, "lookup <items[key]>.index(<new value>) in Storage.put")
-    index_nodes = [n for c in index_calls for n in cfg.nodes_for(c)]
+    def is_lookup(fr: _Frame, c) -> bool:
+        """<list>.index(<new value>)"""
+        return isinstance(c, ast.Call) and call_name(c) == "index" and isinstance(c.func, ast.Attribute) and is_list_in(fr, c.func.value) \
+            and len(c.args) == 1 and not c.keywords and is_new_in(fr, c.args[0])
+
+    def lookup_calls(fr: _Frame):
+        """calls in the frame's function that answer the position of the new value's id in the list: the index() lookup
+        itself, or a helper every result of which is that lookup or None (`not found`)"""
+        out = []
+        for c in calls(fr.fi):
+            if is_lookup(fr, c):
+                out.append(c)
+            elif fr.depth < 2 and _call_targets(ctx, fr.fi, c) and any(is_new_in(fr, a) for a in [*c.args, *[k.value for k in c.keywords]]):
+                leaves = list(_result_leaves(ctx, fr.at(c), c))
+                if leaves and all(_is_none(v) or is_lookup(g, v) for g, v in leaves) and any(is_lookup(g, v) for g, v in leaves):
+                    out.append(c)
+        return out
+
+    index_calls = lookup_calls(root)
     idx_names: set[str] = set()
     for st, targets, value in _assignments(put):
         if strip_cast(value) in index_calls:
             idx_names |= {t.id for t in targets if isinstance(t, ast.Name)}
+    cfg = ctx.cfg(put)
+    index_nodes = [n for c in index_calls for n in cfg.nodes_for(c)]
     found_after = cfg.reach([v for u in index_nodes for v, lab in u.succ if lab != "exc"])
     for nm in idx_names:
         for st, val, ti in local_defs(put, nm):
@@ -567,41 +1575,141 @@ def _put_version_guard(ctx: Ctx, put: FuncInfo):
             if not _is_none(val) or any(n in found_after for n in cfg.nodes_for(st)):
                 raise AnalysisError(f"undecided: Storage.put rebinds the lookup result `{nm}` ({head(st)})")
 
-    def is_idx(e):
+    def is_idx(fr: _Frame, e) -> bool:
         e = strip_cast(e)
-        return isinstance(e, ast.Name) and e.id in idx_names or e in index_calls
+        if fr.up is None:
+            return isinstance(e, ast.Name) and e.id in idx_names or e in index_calls
+        return isinstance(e, ast.Name) and fr.text(e, follow=False) in idx_names or is_lookup(fr, resolve(fr.fi, e))
 
-    def is_old(e):
-        r = resolve(put, e)
-        return isinstance(r, ast.Subscript) and is_list(r.value) and is_idx(r.slice)
+    def element_loops(fr: _Frame, e):
+        """the loops / comprehensions of the frame's function that bind the name e to an element of the list"""
+        if not isinstance(e, ast.Name):
+            return []
+        out = []
+        for l in ast.walk(fr.fi.node):
+            if not isinstance(l, (ast.For, ast.comprehension)):
+                continue
+            it, enum = _strip_enumerate(l.iter)
+            t = l.target
+            if enum:
+                t = t.elts[1] if isinstance(t, ast.Tuple) and len(t.elts) == 2 else None
+            if isinstance(t, ast.Name) and t.id == e.id and is_list_in(fr, it) and len(local_defs(fr.fi, e.id)) <= 1:
+                out.append(l)
+        return out
 
-    def version_of(e, who):
-        e = resolve(put, e)
-        return isinstance(e, ast.Attribute) and e.attr == "version" and who(e.value)
-
-    guards = []
-
-    def not_older(f) -> bool:
-        if f is None:
+    def same_id_fact(fr: _Frame, f, e, pos: bool) -> bool:
+        """f says (pos) / denies (not pos): e == <new value>   (also written over the ids)"""
+        if f is None or f.op != "eq" or f.pos is not pos or f.right is None:
             return False
-        if f.op == "lt":
-            return (not f.pos and version_of(f.left, is_new) and version_of(f.right, is_old)) or \
-                   (f.pos and version_of(f.left, is_old) and version_of(f.right, is_new))
-        if f.op == "eq" and f.pos:
-            return (version_of(f.left, is_new) and version_of(f.right, is_old)) or (version_of(f.left, is_old) and version_of(f.right, is_new))
+        for x, y in ((f.left, f.right), (f.right, f.left)):
+            if norm(strip_cast(x)) == norm(e) and is_new_in(fr, y):
+                return True
+            x, y = strip_cast(x), strip_cast(y)
+            if isinstance(x, ast.Attribute) and isinstance(y, ast.Attribute) and x.attr == y.attr == "id" and norm(strip_cast(x.value)) == norm(e) \
+                    and is_new_in(fr, y.value):
+                return True
         return False
 
-    def not_found(f) -> bool:
+    def searched_entry(fr: _Frame, e):
+        """e = next((v for v in <list> if v == new), None): the stored entry with the new value's id, or None"""
+        r = resolve(fr.fi, e)
+        if not (isinstance(r, ast.Call) and chain(r.func) == "next" and len(r.args) == 2 and _is_none(strip_cast(r.args[1]))
+                and isinstance(r.args[0], ast.GeneratorExp) and len(r.args[0].generators) == 1):
+            return False
+        g = r.args[0].generators[0]
+        return isinstance(g.target, ast.Name) and isinstance(r.args[0].elt, ast.Name) and r.args[0].elt.id == g.target.id and is_list_in(fr, _unwrap_iter(g.iter)) \
+            and len(g.ifs) == 1 and any(same_id_fact(fr, x, g.target, True) for x in _atoms_with_polarity(g.ifs[0], True)) \
+            and len(_atoms_with_polarity(g.ifs[0], True)) == 1
+
+    def is_old_in(fr: _Frame, e, facts=None) -> bool:
+        """e is the stored entry that has the new value's id"""
+        r = resolve(fr.fi, e)
+        if isinstance(r, ast.Subscript) and is_list_in(fr, r.value) and is_idx(fr, r.slice):
+            return True
+        if searched_entry(fr, e):
+            return True
+        facts = fr.facts() if facts is None else facts
+        el = strip_cast(e)
+        if isinstance(el, ast.Name) and element_loops(fr, el) or isinstance(r, ast.Subscript) and is_list_in(fr, r.value):
+            x = el if isinstance(el, ast.Name) else r
+            return any(same_id_fact(fr, f, x, True) for f in facts)
+        return False
+
+    def version_of(fr: _Frame, e, who, facts=None) -> bool:
+        e = resolve(fr.fi, e)
+        return isinstance(e, ast.Attribute) and e.attr == "version" and (who(fr, e.value) if facts is None else who(fr, e.value, facts))
+
+    def not_older(fr: _Frame, f, facts=None) -> bool:
         if f is None:
             return False
-        if f.op == "is" and f.pos and _is_none(f.right) and isinstance(strip_cast(f.left), ast.Name) and strip_cast(f.left).id in idx_names:
-            return True
-        return f.op == "in" and not f.pos and is_new(f.left) and is_list(f.right)
+        old = lambda g, e: is_old_in(g, e, facts)  # noqa: E731
+        ok = False
+        if f.op == "lt":
+            ok = (not f.pos and version_of(fr, f.left, is_new_in) and version_of(fr, f.right, old)) or \
+                 (f.pos and version_of(fr, f.left, old) and version_of(fr, f.right, is_new_in))
+        elif f.op == "eq" and f.pos and f.right is not None:
+            ok = (version_of(fr, f.left, is_new_in) and version_of(fr, f.right, old)) or (version_of(fr, f.left, old) and version_of(fr, f.right, is_new_in))
+        if ok:
+            found_guard.append(f.atom)
+        return ok
 
-    for c in cfg.nodes:
-        for _, lab in c.succ:
-            if not_older(_cond_edge_fact(c, lab)) and c not in guards:
-                guards.append(c)
+    def not_found(fr: _Frame, f) -> bool:
+        if f is None:
+            return False
+        if f.op == "is" and f.pos and _is_none(f.right):
+            l = strip_cast(f.left)
+            return isinstance(l, ast.Name) and fr.text(l, follow=False) in idx_names or searched_entry(fr, l) or is_lookup_helper_result(fr, l)
+        return f.op == "in" and not f.pos and is_new_in(fr, f.left) and is_list_in(fr, f.right)
+
+    def is_lookup_helper_result(fr: _Frame, l) -> bool:
+        return fr.up is not None and isinstance(l, ast.Name) and (single_def(fr.fi, l.id) or (None,))[0] is not None \
+            and strip_cast(single_def(fr.fi, l.id)[0]) in lookup_calls(fr)
+
+    def search_exhausted(fr: _Frame, l) -> bool:
+        """loop l runs over the list and an iteration gets back to its head only over `element == new value` being false:
+        when the loop is exhausted, no entry has the new value's id"""
+        if not isinstance(l, ast.For) or l.orelse and False:
+            return False
+        it, enum = _strip_enumerate(l.iter)
+        t = l.target
+        if enum:
+            t = t.elts[1] if isinstance(t, ast.Tuple) and len(t.elts) == 2 else None
+        if not isinstance(t, ast.Name) or not is_list_in(fr, it) or len(local_defs(fr.fi, t.id)) != 1:
+            return False
+        c = fr.cfg
+        heads = [n for n in c.nodes_for(l) if n.kind == "loop"]
+        for h in heads:
+            body = [v for v, lab in h.succ if lab is True]
+            r = c.reach(body, cut_nodes=fr.blocked,
+                        cut_edge=lambda u, v, lab: u.kind == "cond" and lab in (True, False) and same_id_fact(fr, fact_of(u.ast, lab), t, False))
+            if h in r:
+                return False
+        return bool(heads)
+
+    def p_guard(g: _Frame) -> bool:
+        """the frame's site is reached only with `not older` or `no entry with this id` established"""
+        fs = g.facts()
+        if any(not_older(g, f) or not_found(g, f) for f in fs):
+            return True
+        return any(pol is False and search_exhausted(g, l) for l, pol in g.loop_facts())
+
+    edge_cache: dict = {}
+
+    def edge_guard(fr: _Frame, u, lab) -> bool:
+        k = (id(u), lab)
+        if k not in edge_cache:
+            ok = False
+            if u.kind == "loop" and lab is False:
+                ok = search_exhausted(fr, u.ast)
+            elif u.kind == "cond" and lab in (True, False):
+                f = fact_of(u.ast, lab)
+                at = fr.at(u.ast)
+                ok = not_older(at, f, at.facts() + [f]) or not_found(at, f)
+                if not ok:
+                    grp = _decision_frames(at, f)
+                    ok = bool(grp) and all(_holds(g, p_guard) for g in grp)
+            edge_cache[k] = ok
+        return edge_cache[k]
 
     def value_error_only(dispatch) -> bool:
         return all(h.type is not None and chain(h.type) == "ValueError" for h in dispatch.ast.handlers)
@@ -609,47 +1717,71 @@ def _put_version_guard(ctx: Ctx, put: FuncInfo):
     def own_calls(u):
         return [] if u.ast is None or u.kind not in ("stmt", "cond") else [c for c in walk_no_nested(u.ast) if isinstance(c, ast.Call)]
 
-    def cannot_raise_value_error(u) -> bool:
-        if u.ast is None or isinstance(u.ast, ast.Raise) or u in index_nodes:
-            return False
-        for c in own_calls(u):
-            quiet = isinstance(c.func, ast.Attribute) and c.func.attr in _LIST_QUIET and is_list(c.func.value)
-            if not quiet and call_may_raise(c):
-                return False
-        return True
+    def site_guarded(fr: _Frame):
+        """-> (ok, undecided?) for the frame's site"""
+        c = fr.cfg
+        lk_nodes = [n for x in (index_calls if fr.up is None else lookup_calls(fr)) for n in c.nodes_for(x)]
 
-    def cut(strict: bool):
-        def pred(u, v, lab):
-            if lab == "exc":
-                if u in index_nodes and v.kind == "dispatch":
-                    return True                                  # index() raised: no entry with this id
-                if v.kind == "dispatch" and value_error_only(v):
-                    # subscripts, attribute reads, integer comparisons and pop/insert/sort never raise ValueError
-                    return cannot_raise_value_error(u) or not strict
+        def cannot_raise_value_error(u) -> bool:
+            if u.ast is None or isinstance(u.ast, ast.Raise) or u in lk_nodes:
                 return False
-            f = _cond_edge_fact(u, lab)
-            return not_older(f) or not_found(f)
-        return pred
+            for x in own_calls(u):
+                quiet = isinstance(x.func, ast.Attribute) and x.func.attr in _LIST_QUIET and is_list_in(fr, x.func.value)
+                if not quiet and call_may_raise(x):
+                    return False
+            return True
 
-    sites = []
-    for n in walk_no_nested(put.node):
-        if isinstance(n, ast.Call) and call_name(n) in _LIST_MUTATORS:
-            sites.append(n)
-        elif isinstance(n, (ast.Assign, ast.AugAssign, ast.AnnAssign, ast.Delete)):
-            tg = n.targets if isinstance(n, (ast.Assign, ast.Delete)) else [n.target]
-            for t in tg:
-                for e in (t.elts if isinstance(t, (ast.Tuple, ast.List)) else [t]):
-                    if isinstance(e, ast.Subscript) and (is_list(e.value) or chain(e.value) == "self.items"):
-                        sites.append(n)
+        def cut(strict: bool):
+            def pred(u, v, lab):
+                if lab == "exc":
+                    if u in lk_nodes and v.kind == "dispatch":
+                        return True                                  # index() raised: no entry with this id
+                    if v.kind == "dispatch" and value_error_only(v):
+                        # subscripts, attribute reads, integer comparisons and pop/insert/sort never raise ValueError
+                        return cannot_raise_value_error(u) or not strict
+                    return False
+                return edge_guard(fr, u, lab)
+            return pred
+        ns = [n for n in fr.nodes()]
+        ok = bool(ns) and all(n not in fr.reach(cut_edge=cut(True)) for n in ns)
+        soft = not ok and bool(ns) and all(n not in fr.reach(cut_edge=cut(False)) for n in ns)
+        if not ok and fr.ctx_up and fr.up is not None:
+            return site_guarded(fr.up)
+        return ok, soft
+
+    def mutations(f: FuncInfo):
+        fr = root if f is put else None
+        out = []
+        for n in walk_no_nested(f.node):
+            if isinstance(n, ast.Call) and call_name(n) in _LIST_MUTATORS:
+                out.append(n)
+            elif isinstance(n, (ast.Assign, ast.AugAssign, ast.AnnAssign, ast.Delete)):
+                tg = n.targets if isinstance(n, (ast.Assign, ast.Delete)) else [n.target]
+                for t in tg:
+                    for e in (t.elts if isinstance(t, (ast.Tuple, ast.List)) else [t]):
+                        if isinstance(e, ast.Subscript) and (fr is None or is_list_in(fr, e.value) or chain(e.value) == "self.items"):
+                            out.append(n)
+        return out
+
     out = []
-    for s in sites:
-        ns = [n for n in cfg.nodes_for(s) if cfg.reachable(n)]
-        ok = bool(ns) and all(cfg.must_pass_edges(n, cut(True)) for n in ns)
-        if not ok and ns and all(cfg.must_pass_edges(n, cut(False)) for n in ns):
+    for fr in _sites_via_helpers(ctx, root, mutations):
+        s = fr.site
+        if fr.up is not None:
+            # in a helper only changes of the key's list (handed over as an argument) count
+            recv = s.func.value if isinstance(s, ast.Call) and isinstance(s.func, ast.Attribute) else None
+            tgts = [] if isinstance(s, ast.Call) else (s.targets if isinstance(s, (ast.Assign, ast.Delete)) else [s.target])
+            tgts = [e.value for t in tgts for e in (t.elts if isinstance(t, (ast.Tuple, ast.List)) else [t]) if isinstance(e, ast.Subscript)]
+            if not any(is_list_in(fr, x) or "self.items" in fr.text(x) for x in ([recv] if recv is not None else []) + tgts):
+                continue
+        ok, soft = site_guarded(fr)
+        if soft:
             raise AnalysisError(f"undecided: Storage.put: `{norm(s)}` is reachable through an except ValueError handler from a call "
                                 "that is not the index() lookup")
-        out.append((s, ok, [str(f) for n in ns[:1] for f in facts_at(cfg, n)]))
-    return out, guards, news, is_list, is_new, is_old
+        out.append((fr.fi, s, ok, [str(f) for f in fr.facts()]))
+
+    def is_old(e):
+        return is_old_in(root.at(enclosing_stmt(e)), e)
+    return out, bool(found_guard), news, (lambda e: is_list_in(root, e)), (lambda e: is_new_in(root, strip_cast(e))), is_old
 
 
 def _single_bool(fi: FuncInfo):
@@ -665,9 +1797,9 @@ def rule_storage(ctx: Ctx) -> None:
     put = repo.method("Storage", "put", DS)
     sites, guards, news, is_list, is_new, is_old = _put_version_guard(ctx, put)
     n = 0
-    for s, ok, facts in sites:
+    for sf, s, ok, facts in sites:
         n += 1
-        ctx.check(ok, "version-monotone", put, s, "replacement only when new.version >= old.version", "a stored newer version can be replaced by an older one", facts)
+        ctx.check(ok, "version-monotone", sf, s, "replacement only when new.version >= old.version", "a stored newer version can be replaced by an older one", facts)
     ctx.floor("version-monotone", n, 1)
     # the accepted update stores the new Value object (which carries the new version)
     ins = []
@@ -743,6 +1875,33 @@ def rule_storage(ctx: Ctx) -> None:
             if tgt_ok and isinstance(g.target, ast.Name) and isinstance(v.elt, ast.Name) and v.elt.id == g.target.id and is_vals(_unwrap_iter(g.iter)) \
                     and len(g.ifs) == 1 and not_expired(g.ifs[0], g.target.id):
                 filters.append(st)
+    # filter(lambda v: not v.expired, <list>) keeps the same elements as the comprehension
+    for st, targets, value in _assignments(cl):
+        v = _unwrap_iter(value)
+        if isinstance(v, ast.Call) and chain(v.func) == "filter" and len(v.args) == 2 and isinstance(v.args[0], ast.Lambda) and len(v.args[0].args.args) == 1 \
+                and len(targets) == 1 and any(o in list(ancestors(st)) for o in outer):
+            t = targets[0]
+            tgt_ok = isinstance(t, ast.Subscript) and (is_vals(t) or isinstance(t.slice, ast.Slice) and t.slice.lower is None and t.slice.upper is None
+                                                        and t.slice.step is None and is_vals(t.value))
+            if tgt_ok and is_vals(_unwrap_iter(v.args[1])) and not_expired(v.args[0].body, v.args[0].args.args[0].arg):
+                filters.append(st)
+    # self.items = defaultdict(list, {k: [v for v in vs if not v.expired] for k, vs in self.items.items()}): every key, every value
+    for st, targets, value in _assignments(cl):
+        if not any(chain(t) == "self.items" for t in targets):
+            continue
+        v = strip_cast(value)
+        if isinstance(v, ast.Call) and chain(v.func) in ("defaultdict", "collections.defaultdict") and len(v.args) == 2 and chain(v.args[0]) == "list":
+            v = strip_cast(v.args[1])
+        if isinstance(v, ast.DictComp) and len(v.generators) == 1 and not v.generators[0].ifs and chain(_unwrap_iter(v.generators[0].iter)) == "self.items.items()" \
+                and isinstance(v.generators[0].target, ast.Tuple) and len(v.generators[0].target.elts) == 2 and all(isinstance(e, ast.Name) for e in v.generators[0].target.elts):
+            kn, vn = (e.id for e in v.generators[0].target.elts)
+            lc = strip_cast(v.value)
+            if isinstance(v.key, ast.Name) and v.key.id == kn and isinstance(lc, ast.ListComp) and len(lc.generators) == 1:
+                g = lc.generators[0]
+                if isinstance(g.target, ast.Name) and isinstance(lc.elt, ast.Name) and lc.elt.id == g.target.id and chain(_unwrap_iter(g.iter)) == vn \
+                        and len(g.ifs) == 1 and not_expired(g.ifs[0], g.target.id):
+                    filters.append(st)
+                    outer.append(v)
     early = [x for x in ast.walk(cl.node) if isinstance(x, ast.Break) or isinstance(x, ast.Return) and any(isinstance(a, (ast.For, ast.While)) for a in ancestors(x))]
     # a while loop whose continuation depends on an entry being expired stops at the first live one
     early += [w for w in whiles if any(isinstance(x, ast.Attribute) and x.attr == "expired" for x in ast.walk(w.test))]
@@ -754,8 +1913,18 @@ def rule_storage(ctx: Ctx) -> None:
               "so an expired value behind a longer-lived one survives maintenance")
     pops = [c for c in calls(cl) if call_name(c) in ("pop", "remove", "clear", "popitem", "__delitem__")]
     pops += [d for d in walk_no_nested(cl.node) if isinstance(d, ast.Delete)]
+    def facts_for(p):
+        """dominating facts, plus the filter of a generator helper the enclosing loop runs over:
+        `for i in self._expired_positions(values)` with `for i in ..: if values[i].expired: yield i`"""
+        fs = list(facts_at(cfgc, p))
+        for l in ancestors(p):
+            if isinstance(l, ast.For):
+                inner = _generator_call_as_genexp(ctx, cl, l.iter)
+                if inner is not None:
+                    fs += [f for t in inner.generators[0].ifs for f in _atoms_with_polarity(t, True)]
+        return fs
     ok = (bool(pops) or bool(filters)) and all(any(f.op == "truthy" and f.pos and isinstance(f.left, ast.Attribute) and f.left.attr == "expired"
-                                                   for f in facts_at(cfgc, p)) for p in pops)
+                                                   for f in facts_for(p)) for p in pops)
     if not pops and not filters and stores(cl, lambda c: c.startswith("self.items")):
         raise AnalysisError("undecided: Storage.clean rebuilds self.items in a way that is not decided")
     ctx.check(ok, "expiry-sweep", cl, cl.node, "only expired values are removed", "clean removes values that have not expired")
@@ -775,35 +1944,105 @@ def rule_store_peer(ctx: Ctx) -> None:
     fi = repo.method("DHTDiscoveryCommunity", "on_store_peer_request", DD)
     from .c01 import classify_handler
     ctx.check(classify_handler(ctx, fi) == "authenticated", "store-peer-mid", fi, fi.node, "on_store_peer_request is authenticated", "store-peer requests are not authenticated")
-    cfg = ctx.cfg(fi)
+    root = _Frame(ctx, fi, fi.node)
     peer, payload = fi.params()[1], fi.params()[2]
 
-    def store_slot(c):
-        """self.store[<key>] when the call's receiver is that list (also through a local alias)"""
+    def store_slot(f: FuncInfo, c):
+        """the key when the call's receiver is the list self.store[<key>] / self.store.setdefault(<key>, ..) / self.store.get(<key>, ..)
+        (also through a local alias)"""
         if not isinstance(c.func, ast.Attribute):
             return None
-        r = resolve(fi, c.func.value)
-        return r if isinstance(r, ast.Subscript) and chain(r.value) == "self.store" else None
+        r = resolve(f, c.func.value)
+        if isinstance(r, ast.Subscript) and chain(r.value) == "self.store":
+            return r.slice
+        if isinstance(r, ast.Call) and chain(r.func) in ("self.store.setdefault", "self.store.get") and r.args:
+            return r.args[0]
+        return None
 
-    aps = [c for c in calls(fi) if call_name(c) in ("append", "insert", "extend") and store_slot(c) is not None]
+    aps = _sites_via_helpers(ctx, root, lambda f: [c for c in calls(f) if call_name(c) in ("append", "insert", "extend") and store_slot(f, c) is not None])
     ctx.anchor(aps, "store append in on_store_peer_request")
-    for a in aps:
-        fs = facts_at(cfg, a)
-        tok = None
-        for f in fs:
-            if f.op == "truthy" and f.pos and isinstance(f.left, ast.Call) and chain(f.left.func) == "self.check_token" \
-                    and _rnorm(fi, arg(f.left, 1)) == f"{payload}.token":
-                tok = f.left
-        mid = any(f.op == "eq" and f.pos and {_rnorm(fi, f.left), _rnorm(fi, f.right)} == {f"{payload}.target", f"{peer}.mid"} for f in fs)
-        tn = strip_cast(arg(tok, 0)) if tok is not None and arg(tok, 0) is not None else None
+
+    def sender_node(e: ast.AST | None) -> bool:
+        """e (in the handler's terms) is the Node built from the authenticated sender's key and address"""
+        tn = strip_cast(e) if e is not None else None
         d = single_def(fi, tn.id) if isinstance(tn, ast.Name) else None
-        dv = strip_cast(d[0]) if d is not None and d[1] is None else None
-        node_ok = isinstance(dv, ast.Call) and chain(dv.func) == "Node" and _rnorm(fi, arg(dv, 0, "key")) == f"{peer}.key" \
+        dv = strip_cast(d[0]) if d is not None and d[1] is None else tn if isinstance(tn, ast.Call) else None
+        return isinstance(dv, ast.Call) and chain(dv.func) == "Node" and _rnorm(fi, arg(dv, 0, "key")) == f"{peer}.key" \
             and _rnorm(fi, arg(dv, 1, "address")) == f"{peer}.address"
-        slot_ok = _rnorm(fi, store_slot(a).slice) in (f"{payload}.target", f"{peer}.mid")   # equal under the `mid` fact
-        ctx.check(tok is not None and mid and node_ok and slot_ok, "store-peer-mid", fi, a,
+
+    def p_token(fr: _Frame) -> bool:
+        for f in fr.facts():
+            if f.op == "truthy" and f.pos and isinstance(f.left, ast.Call) and chain(f.left.func) == "self.check_token" \
+                    and fr.text(arg(f.left, 1)) == f"{payload}.token" and arg(f.left, 0) is not None and sender_node(fr.top(arg(f.left, 0), follow=False)):
+                return True
+        return False
+
+    def p_mid(fr: _Frame) -> bool:
+        return any(f.op == "eq" and f.pos and {fr.text(f.left), fr.text(f.right)} == {f"{payload}.target", f"{peer}.mid"} for f in fr.facts())
+
+    for fr in aps:
+        a = fr.site
+        tok, mid = _holds(fr, p_token), _holds(fr, p_mid)
+        slot_ok = fr.text(store_slot(fr.fi, a)) in (f"{payload}.target", f"{peer}.mid")   # equal under the `mid` fact
+        ctx.check(tok and mid and slot_ok, "store-peer-mid", fr.fi, a,
                   "peer stored only with a valid token for the sender and target == sender's mid",
-                  f"a peer can be stored under a key that is not its own mid or without a valid token (token={tok is not None} mid={mid} node={node_ok})", [str(f) for f in fs])
+                  f"a peer can be stored under a key that is not its own mid or without a valid token (token+node={tok} mid={mid})", [str(f) for f in fr.facts()])
+
+
+# ------------------------------------------------------------------------------------------------ requester identity
+def rule_requester_address(ctx: Ctx) -> None:
+    """
+    generate_token / check_token hash str(<node>) of the Node get_requesting_node returns, which is the routing table's entry
+    when the id is already known.  The token is bound to the requester's *current* address only if Bucket.add refreshes
+    that entry's address from the incoming node whenever the id is known: decided as a path query - from the edge that
+    establishes `known id`, every path to the exit passes `<entry>.address = <incoming>.address` (or an edge establishing
+    that the two addresses are equal already).
+    """
+    repo = ctx.repo
+    add = repo.method("Bucket", "add", "ipv8/dht/routing.py")
+    cfg = ctx.cfg(add)
+    inc = add.params()[1]
+    ctx.check(not local_defs(add, inc), "requester-address", add, add.node, "incoming node parameter not rebound", "Bucket.add rebinds the incoming node")
+
+    def is_entry(e) -> bool:
+        """self.nodes[<incoming>.id] / self.nodes.get(<incoming>.id)"""
+        r = resolve(add, e)
+        if isinstance(r, ast.Subscript) and chain(r.value) == "self.nodes":
+            return _rnorm(add, r.slice) == f"{inc}.id"
+        return isinstance(r, ast.Call) and chain(r.func) == "self.nodes.get" and r.args and _rnorm(add, r.args[0]) == f"{inc}.id"
+
+    def addr_of(e, who) -> bool:
+        r = resolve(add, e)
+        return isinstance(r, ast.Attribute) and r.attr == "address" and who(r.value)
+
+    is_inc = lambda e: _rnorm(add, e) == inc  # noqa: E731
+    refresh = [st for st, targets, value in _assignments(add) if addr_of(value, is_inc)
+               and any(isinstance(t, ast.Attribute) and t.attr == "address" and is_entry(t.value) for t in targets)]
+    # replacing the entry by the incoming node refreshes the address as well
+    refresh += [st for st, targets, value in _assignments(add) if is_inc(value)
+                and any(isinstance(t, ast.Subscript) and chain(t.value) == "self.nodes" and _rnorm(add, t.slice) == f"{inc}.id" for t in targets)]
+    rn = [n for st in refresh for n in cfg.nodes_for(st)]
+
+    def known(f) -> bool:
+        if f.op == "in" and f.pos and _rnorm(add, f.left) == f"{inc}.id":
+            return norm(_unwrap_iter(f.right)) in ("self.nodes", "self.nodes.keys()")
+        return _truth_fact(f, lambda e: isinstance(resolve(add, e), ast.Call) and is_entry(e))
+
+    def same_address(u, v, lab) -> bool:
+        f = _cond_edge_fact(u, lab)
+        return f is not None and f.op == "eq" and f.pos and f.right is not None and \
+            (addr_of(f.left, is_entry) and addr_of(f.right, is_inc) or addr_of(f.left, is_inc) and addr_of(f.right, is_entry))
+
+    edges = [(u, v, lab) for u in cfg.nodes if u.kind == "cond" for v, lab in u.succ if lab in (True, False) and known(fact_of(u.ast, lab))]
+    if not edges:
+        raise AnalysisError("undecided: how Bucket.add recognises an already known node id is not decided")
+    for u, v, lab in edges:
+        r = cfg.reach([v], cut_nodes=rn, cut_edge=same_address)
+        ctx.check(cfg.exit not in r, "requester-address", add, u.ast,
+                  "a known routing entry always takes over the address of the incoming node",
+                  "Bucket.add can keep the old address of an already known entry: get_requesting_node returns that entry and check_token hashes "
+                  "str(entry), so a store request from a new address is accepted with the token that was issued to the old address "
+                  "(the token is no longer bound to the requester's address)")
 
 
 def run(ctx: Ctx) -> None:
@@ -812,6 +2051,7 @@ def run(ctx: Ctx) -> None:
     rule_signed(ctx)
     rule_storage(ctx)
     rule_store_peer(ctx)
+    rule_requester_address(ctx)
     ctx.assume("str(node) renders the requester's address and key (Peer.__str__); sha1 pre-image resistance; os.urandom")
     ctx.assume("clock advances / rotations interleaved with stores are not explored")
 
@@ -851,6 +2091,16 @@ WITNESSES = [
      "old": "            if new_value.version >= old_value.version:", "new": "            if old_value.expired or new_value.version >= old_value.version:"},
     {"name": "store-peer under foreign mid", "file": DD, "rule": "store-peer-mid",
      "old": "        if payload.target != peer.mid:\n            self.logger.warning(\"Not allowed to store under key %s, dropping packet.\", hexlify(payload.target))\n            return\n", "new": ""},
+    {"name": "lookup selects among the head of the received values only", "file": DC, "rule": "signed-means-verified",
+     "old": "        values = crawl.values\n", "new": "        values = crawl.values[:MAX_VALUES_IN_FIND]\n"},
+    {"name": "known routing entry keeps its old address", "file": "ipv8/dht/routing.py", "rule": "requester-address",
+     "old": "            curr_node.address = node.address\n", "new": "            if curr_node.failed:\n                curr_node.address = node.address\n"},
+    {"name": "value stored outside the store gate", "file": DC, "rule": "store-gate",
+     "old": "        self.ez_send(peer, PingResponsePayload(payload.identifier))",
+     "new": "        self.add_value(node.id, data, self.get_storage(node))\n        self.ez_send(peer, PingResponsePayload(payload.identifier))"},
+    {"name": "token secret appended outside token_maintenance", "file": DC, "rule": "token-preimage",
+     "old": "        self.ez_send(peer, PingResponsePayload(payload.identifier))",
+     "new": "        self.token_secrets.append(data[:20])\n        self.ez_send(peer, PingResponsePayload(payload.identifier))"},
     {"name": "store-peer without token", "file": DD, "rule": "store-peer-mid",
      "old": "        if not self.check_token(node, payload.token):\n            self.logger.warning(\"Bad token, dropping packet.\")\n            return\n        if payload.target != peer.mid:",
      "new": "        if payload.target != peer.mid:"},
